@@ -23,6 +23,25 @@ of a fixed-point result is a bool and True only if every exact value is an integ
 
 `mp_*` natives run slices of the same cases with m parties (in-process harness sx/mp.py, real asynchronous mode, inputs dealt
 with runtime.input, i.e. thresha.np_random_split, results opened with np_recombine), all parties must obtain the same values.
+
+Further natives: `random_bits` (np_random_bits: shape, range, flag), `ffarray` (public finfields.FiniteFieldArray arithmetic against the
+own field arithmetic and against field elements), `np_split_recombine` (thresha.np_random_split / np_recombine against own polynomial
+evaluation and against random_split / recombine with the SAME dealer coefficients: the draws are scripted, the two functions consume
+them in different orders), `np_prss` (np_pseudorandom_share / np_pseudorandom_share_0 against the list versions with the same PRF keys).
+
+Classes of inputs that deviate on the unchanged tree are delimited by the predicates EXC_CLASSES / MSG_CLASSES / MP_KNOWN (and in ck_ff,
+ck_prss); the contract stays strict, the check returns ('class', key, message) for them (lib/native.py), everything else is a violation.
+
+Covered np_* methods of Runtime: absolute add all amax amin any append argmax argmin block (arrays) column_stack concatenate convolve copy
+cumsum cumulative_sum det diag diagflat diagonal divide dsplit dstack equal expand_dims find (public s, e default / -1) flatten flip fliplr
+flipud from_bits fromlist getitem hsplit hstack if_swap is_zero_public left_shift less lsb matmul maximum minimum multiply negative outer
+pow (public integer exponent; public integer base) prod random_bits reciprocal (through /) reshape roll rot90 sgn sort split squeeze stack
+subtract sum swapaxes to_bits (and add_bits through it) tolist trace transpose trunc unit_vector update vander vsplit vstack where; all
+operators, methods and properties of SecureArray.  Not covered: np_exp / np_exp2 / np_log / np_log2 / np_log10 and np_pow with float
+exponent or base (approximations without a stated bound), np_find with f / cs_f / e=None / secret s, np_block with scalar entries,
+np_row_stack, key functions other than -x, np_roll with tuple shifts, error cases.  Not offered by the runtime (AttributeError through the
+numpy dispatch): np.tile, np.dot, np.inner, np.tensordot, np.min / np.max (NumPy 2 names; np.amin / np.amax work), np_convert
+(mpc.convert does not accept arrays), SecFlt arrays.
 """
 import sys, os, math, itertools, random, hashlib
 from fractions import Fraction
@@ -181,6 +200,8 @@ def gen(tname, spec):
     n = math.prod(shape)
     r = random.Random(f'{tname}|{okind}|{shape}|{seed}|{mode}')
     k = tname[0]
+    if mode[0] == 'P':                  # 'P<d>': the constant d
+        return [int(mode[1:]) * (16 if k == 'x' else 1)] * n
     if k == 'f':
         q = int(tname[1:])
         if mode == 'b': return [r.randrange(2) for _ in range(n)]
@@ -197,7 +218,7 @@ def gen(tname, spec):
     if mode == 'u': return [r.choice((-2, -1, 1, 2) if k == 'i' else (-24, -16, -8, 8, 16, 24)) for _ in range(n)]    # factors of products
     if mode == 'nz': return [r.choice((-1, 1)) * r.randrange(1, 9) for _ in range(n)] if k == 'i' else [r.choice((-1, 1)) * r.randrange(4, 65) for _ in range(n)]
     if mode == 'w':                     # wide: up to a quarter of the range, so that differences fit
-        h = 1 << (l - 2 - (4 if k == 'x' else 0))
+        h = 1 << (l - 2 if k == 'i' else l - _frac(tname) - 2 + 4)
         return [r.choice((-h + 1, h - 1, 0, r.randrange(-h + 1, h))) for _ in range(n)]
     if mode == 'm': return [r.randrange(-60, 61) for _ in range(n)] if k == 'i' else [r.randrange(-64, 65) for _ in range(n)]
     raise ValueError(mode)
@@ -212,7 +233,7 @@ def exact_val(tname, e, of=None):
 def plain_val(tname, e, mode):
     """the Python number handed to mpyc for an encoding"""
     if tname[0] == 'x':
-        if mode in ('i', 'b', 'p', 'e') and e % 16 == 0: return e // 16          # an int: integral operand
+        if (mode in ('i', 'b', 'p', 'e') or mode[0] == 'P') and e % 16 == 0: return e // 16          # an int: integral operand
         return e / 16
     return e
 
@@ -271,8 +292,9 @@ def mk_scal(cx, spec):
 class World:
     """n = 1: secure arrays; 2: exact object arrays; 3: object arrays of secure scalars"""
 
-    def __init__(s, n, np, cx=None, tname=None, of=None):
+    def __init__(s, n, np, cx=None, tname=None, of=None, elt=None):
         s.n, s.np, s.cx, s.mpc = n, np, cx, cx.mpc if cx else None
+        s.elt = elt or (cx.T if cx else None)          # constructor of the scalars of world 3
         s.tname = tname or cx.tname
         s.kind = s.tname[0]
         s.of = of
@@ -359,7 +381,12 @@ async def _open(cx, leaves):
             d['share'] = tuple(sh.shape) if hasattr(sh, 'shape') else None
         else:
             d['shape'] = ()
-            d['v'] = [cx.enc(v)]
+            try:
+                d['v'] = [cx.enc(v)]
+            except ValueError as e:
+                if not (hasattr(v, 'shape') and v.shape == () and hasattr(v, 'value')): raise
+                d['encerr'] = f'secure number opened as {type(v).__name__} of shape (): {e}'
+                d['v'] = [cx.enc(v.value[()])]
             d['share'] = ()
         out.append(d)
     return out
@@ -374,6 +401,7 @@ async def eval_case(cx, args, worlds=(1, 3)):
         w = World(1, cx.np, cx)
         xs = [mk_sec(cx, sp) for sp in operands]
         R = op.fn(w, xs, pr)
+        if hasattr(R, '__await__') and not _is_secure(cx, R): R = await R          # public results arrive as futures (np_is_zero_public)
         leaves = []
         res['struct'] = _walk(cx, R, leaves)
         res['leaves'] = await _open(cx, leaves)
@@ -432,6 +460,7 @@ def _cmp(tname, st, leaves, E, tol, path='result'):
         if lf['decl'] != lf['shape'] or (lf['share'] is not None and lf['share'] != lf['shape']):
             return f'{path}: PLACEHOLDER-SHAPE the placeholder declares shape {lf["decl"]}, the value that arrives has shape {lf["share"]} (opened: {lf["shape"]}); NumPy: {eshape}'
         if lf['shape'] != eshape: return f'{path}: shape {lf["shape"]}, NumPy gives {eshape}'
+        if 'encerr' in lf: return f'{path}: OPENED-TYPE {lf["encerr"]}'
         got = lf['v']
         if tname[0] == 'x':
             fl = lf['integral']
@@ -461,6 +490,8 @@ def _cmp(tname, st, leaves, E, tol, path='result'):
             e = Fraction(e)
             if abs(g - e) * 2 ** f > t:
                 return f'{path}: element {i}: {float(g)} but exact value {float(e)} (off by {float(abs(g - e) * 2 ** f):.2f} units, allowed {float(t):.2f})'
+        elif tname[0] == 'i' and tol:
+            if not (g == e or abs(g - Fraction(e)) < tol): return f'{path}: element {i}: {g} but exact value {float(e)} (allowed: less than {tol} off)'
         elif g != e:
             return f'{path}: element {i}: {g} but NumPy gives {e}; got {got[:12]} expected {evals[:12]}'
     return None
@@ -490,6 +521,8 @@ def oracle(np, args, mod):
     tol = 0
     if tname[0] == 'x' and op.tol is not None:
         tol = op.tol(w, xs, pr, E, operands)
+    if tname[0] == 'i' and op.itol is not None:
+        tol = op.itol
     return E, tol
 
 
@@ -502,6 +535,9 @@ def check_res(args, res, np=None):
     except Exception as e:
         return f'oracle: NumPy on the exact data raised {type(e).__name__}: {e} (input generator error)'
     ES = _flat_struct(np, E, tname)
+    if opname in NOFLAG_OPS:         # mpc.trunc and mpc.np_trunc alike return fixed-point placeholders without an integral flag (None): not a difference between arrays and scalars
+        for lf in res['leaves'] + res.get('sleaves', []):
+            if lf.get('integral') is None: lf['integral'] = False
     m = _cmp(tname, res['struct'], res['leaves'], ES, tol)
     if m: return m
     if 'sexc' in res: return f'elementwise secure-scalar version raised {res["sexc"]}'
@@ -561,22 +597,85 @@ def _empty_float_operand(args, exc):
             and any(sp[0] in 'AN' and math.prod(sp[1]) == 0 and sp[3] not in ('i', 'b', 'p', 'e') for sp in args[2]))
 
 
-ELEMENTWISE = ('add', 'sub', 'mul', 'div', 'div_exact', 'pow', 'lt', 'le', 'eq', 'ne', 'ge', 'gt', 'minimum', 'maximum', 'where', 'if_swap')
+ELEMENTWISE = ('add', 'sub', 'mul', 'div', 'div_exact', 'pow', 'lshift', 'lt', 'le', 'eq', 'ne', 'ge', 'gt', 'minimum', 'maximum', 'where', 'if_swap')
 
 # delimited classes of failing inputs on the unchanged tree (the strict contract is kept; listed in known_findings.txt by class key)
 EXC_CLASSES = [
     (lambda a, e: a[1] in ('div', 'div_exact') and a[0][0] in 'if' and a[2][1][0] == 'S' and a[2][0][0] == 'A', 'int-or-field-array-divided-by-secure-scalar'),
     (_empty_float_operand, 'fxp-array-from-empty-float-ndarray'),
+    (lambda a, e: a[1] == 'det' and a[0][0] == 'f' and isinstance(e, TypeError) and 'finite field element required' in str(e), 'det-of-secure-field-array:TypeError'),
+    (lambda a, e: (a[1] in _CMP or a[1] in ('minimum', 'maximum')) and a[2][0][0] == 'S' and a[2][1][0] == 'A' and isinstance(e, (AssertionError, AttributeError, TypeError)),
+     'secure-scalar-compared-with-secure-array:exception'),
+    (lambda a, e: a[1] == 'aminmax' and a[3][3] is True and isinstance(a[3][2], int) and a[3][2] % len(a[2][0][1]) == 0 and isinstance(e, UnboundLocalError),
+     'amin-amax:axis-0-with-keepdims:UnboundLocalError'),
+    (lambda a, e: a[1] == 'argminmax' and a[3][2] is not None and a[2][0][1][a[3][2]] == 1 and math.prod(a[2][0][1]) > 1 and isinstance(e, ValueError) and 'cannot reshape array of size 1' in str(e),
+     'argmin-argmax:axis-of-length-1-with-several-rows:ValueError'),
+    (lambda a, e: a[1] in ('prod', 'allany') and math.prod(a[2][0][1]) == 0 and isinstance(e, (IndexError, ZeroDivisionError)), 'prod-all-any:empty-array:exception'),
+    (lambda a, e: _split_by_indices(a) and isinstance(e, IndexError), 'split:index-list:wrong-number-of-parts'),
+    (lambda a, e: a[1] == 'np.hsplit' and len(a[2][0][1]) == 1 and isinstance(e, IndexError), 'hsplit:1-D-array:IndexError'),
+    (lambda a, e: a[1] in ('to_bits', 'bits_roundtrip') and a[0][0] == 'f' and _prime_factor(int(a[0][1:]))[1] == 1 and math.prod(a[2][0][1]) == 0 and isinstance(e, IndexError),
+     'prime-field-to_bits:empty-array:IndexError'),
 ]
+
+
+def _split_by_indices(args):
+    return args[1] in ('np.split', 'np.hsplit', 'np.vsplit', 'np.dsplit') and isinstance(args[3][0][0], list)
+
+
+def _rot90_even(args, res, msg):
+    if args[1] != 'np.rot90' or 'PLACEHOLDER-SHAPE' not in msg: return False
+    pargs = args[3][0]
+    k = pargs[0] if pargs else 1
+    return k % 2 == 0
+
+
+def _stack_negative_axis(args, res, msg):
+    return args[1] == 'np.stack' and 'PLACEHOLDER-SHAPE' in msg and dict(args[3][1]).get('axis', 0) < 0
+
+
+def _argm_axis_order(args, res, msg):
+    """index / extreme-value output of argmin/argmax for >= 3 dimensions along an axis that is not one of the last two: np_swapaxes(axis, -1) permutes the remaining axes"""
+    if args[1] != 'argminmax' or 'element' not in msg: return False
+    s, axis = args[2][0][1], args[3][2]
+    return axis is not None and len(s) >= 3 and axis % len(s) < len(s) - 2
+
+
+def _argm_values_2d(args, res, msg):
+    if args[1] != 'argminmax' or not msg.startswith('result[1]: shape'): return False
+    which, form, axis, keepdims, unary, only = args[3]
+    return axis is not None and not keepdims and not only and f'shape ({math.prod(args[2][0][1]) // args[2][0][1][axis]}, 1)' in msg
+
+
+def _reflected_compare(args, res, msg):
+    """np.less / less_equal / greater / greater_equal whose FIRST operand is public (np.less(2, a), np.array(..) < a): SecureObject.__array_ufunc__ evaluates op(a, public)"""
+    tname, opn, ops, pr = args
+    return opn in ('lt', 'le', 'ge', 'gt') and ops[0][0] in 'PN' and ops[1][0] == 'A' and (pr[0] == 'ufunc' or ops[0][0] == 'N') and 'element' in msg
+
+
 MSG_CLASSES = [
+    (_reflected_compare, 'comparison-ufunc-public-first-operand:operands-swapped'),
+    (_argm_axis_order, 'argmin-argmax:ndim>=3-axis-before-the-last-two:remaining-axes-permuted'),
+    (_argm_values_2d, 'argmin-argmax:extreme-values-without-keepdims:shape-(n,1)-instead-of-1D'),
+    (lambda a, r, m: a[1] == 'find' and math.prod(a[2][0][1]) == 0 and 'shape ()' in m, 'find:empty-array:scalar-instead-of-array'),
+    (lambda a, r, m: a[0][0] == 'x' and a[1] in JOINS and any(sp[0] == 'N' for sp in a[2]) and ('element' in m or 'integral flag True' in m),
+     'fxp-join-with-public-ndarray:public-values-not-scaled'),
+    (lambda a, r, m: a[0][0] == 'x' and a[1] == 'roll_secret' and 'element' in m, 'fxp-roll-with-secret-shift:result-scaled-by-2^f'),
+    (lambda a, r, m: a[0][0] == 'f' and 'OPENED-TYPE' in m and a[1] in ('getitem', 'matmul'), 'field:secure-scalar-holds-0-dim-array'),
+    (lambda a, r, m: a[0][0] == 'x' and a[1] == 'sum' and a[3][3] is not None and 'integral flag True' in m, 'fxp-sum-with-non-integral-initial:integral-flag-True'),
+    (lambda a, r, m: a[0][0] == 'x' and a[1] == 'np.dstack' and 'INTEGRAL-FLAG' in m, 'fxp-dstack:integral-flag-None'),
+    (_rot90_even, 'rot90:even-k:placeholder-shape-with-axes-swapped'),
+    (_stack_negative_axis, 'stack:negative-axis:placeholder-shape'),
+    (lambda a, r, m: _split_by_indices(a) and 'expected a sequence of' in m, 'split:index-list:wrong-number-of-parts'),
     (_shape1_for_0d, '0-dim-array-operands:result-shape-(1,)'),
 ]
+NOFLAG_OPS = ('trunc',)
+JOINS = ('np.concatenate', 'np.stack', 'np.hstack', 'np.vstack', 'np.dstack', 'np.column_stack', 'np.append', 'np.block')
 
 
 # ================================================================================================ operations
 class Op:
-    def __init__(s, name, fn, ofn=None, sfn=None, scalar=False, tol=None, stol=None):
-        s.name, s.fn, s.ofn, s.sfn, s.scalar, s.tol, s.stol = name, fn, ofn, sfn, scalar, tol, stol
+    def __init__(s, name, fn, ofn=None, sfn=None, scalar=False, tol=None, stol=None, itol=None):
+        s.name, s.fn, s.ofn, s.sfn, s.scalar, s.tol, s.stol, s.itol = name, fn, ofn, sfn, scalar, tol, stol, itol
 
 
 OPS = {}
@@ -627,7 +726,7 @@ for _n in ('add', 'sub', 'mul', 'div'):
 
 
 def _is_pubfloat(sp):
-    return sp[0] in 'PN' and sp[3] not in ('i', 'b', 'p', 'e')
+    return sp[0] in 'PN' and sp[3] not in ('i', 'b', 'p', 'e') and sp[3][0] != 'P'
 
 
 def _tol_mul(w, xs, pr, E, operands):
@@ -703,6 +802,640 @@ def _lshift(w, xs, pr):
     return w.ew(lambda x, s: x * 2 ** int(s), a, k)
 
 
+# ------------------------------------------------------------------ matmul and relatives
+def _tol_inner(w, xs, pr, E, operands):
+    a, b = xs
+    n = a.shape[-1] if getattr(a, 'ndim', 0) else 1
+    return max(n, 1)
+
+
+@defop('matmul', scalar=True, tol=_tol_inner)
+def _matmul(w, xs, pr):
+    a, b = xs
+    form = pr[0]
+    if w.n == 1:
+        if form == 'self': return a @ a
+        if form == 'np': return w.np.matmul(a, b)
+        if form == 'mpc': return w.mpc.np_matmul(a, b)
+        return a @ b
+    if form == 'self': b = a
+    return _omatmul(w.np, a, b, w)
+
+
+def _omatmul(np, a, b, w):
+    """matrix product of object arrays by the definition (np.matmul semantics incl. 1-D operands and batch broadcasting)"""
+    if a.ndim == 0 or b.ndim == 0: raise ValueError('matmul: 0-d operand')
+    a2 = a.reshape(1, -1) if a.ndim == 1 else a
+    b2 = b.reshape(-1, 1) if b.ndim == 1 else b
+    if a2.shape[-1] != b2.shape[-2]: raise ValueError('matmul: inner dimensions differ')
+    batch = np.broadcast_shapes(a2.shape[:-2], b2.shape[:-2])
+    a3 = np.broadcast_to(a2, batch + a2.shape[-2:]); b3 = np.broadcast_to(b2, batch + b2.shape[-2:])
+    out = np.empty(batch + (a2.shape[-2], b2.shape[-1]), dtype=object)
+    zero = w.const(0)
+    for idx in np.ndindex(out.shape):
+        bi, i, j = idx[:-2], idx[-2], idx[-1]
+        s = None
+        for k in range(a2.shape[-1]):
+            t = a3[bi + (i, k)] * b3[bi + (k, j)]
+            s = t if s is None else s + t
+        out[idx] = zero if s is None else s
+    if a.ndim == 1: out = out.reshape(out.shape[:-2] + out.shape[-1:])
+    if b.ndim == 1: out = out.reshape(out.shape[:-1])
+    return out
+
+
+@defop('outer', scalar=True, tol=lambda w, xs, pr, E, ops: 1)
+def _outer(w, xs, pr):
+    a, b = xs
+    if w.n == 1: return w.mpc.np_outer(a, b) if pr[0] == 'mpc' else w.np.outer(a, b)
+    return w.ew(_o.mul, a.reshape(-1, 1), b.reshape(1, -1))
+
+
+@defop('convolve', scalar=True, tol=lambda w, xs, pr, E, ops: max(1, min(len(xs[0]), len(xs[1]))))
+def _convolve(w, xs, pr):
+    a, b = xs
+    mode = pr[0]
+    if w.n == 1: return w.np.convolve(a, b, mode=mode)
+    m, n = len(a), len(b)
+    full = []
+    for k in range(m + n - 1):
+        s = None
+        for i in range(m):
+            if 0 <= k - i < n:
+                t = a[i] * b[k - i]
+                s = t if s is None else s + t
+        full.append(s)
+    if mode == 'same':
+        lo = (min(m, n) - 1) // 2; full = full[lo:lo + max(m, n)]
+    elif mode == 'valid':
+        full = full[min(m, n) - 1:max(m, n)]
+    return objarr(w.np, full, (len(full),))
+
+
+def _tol_vander(w, xs, pr, E, operands):
+    a, = xs
+    N = pr[0] if pr[0] is not None else len(a)
+    return _tree_tol(max(N - 1, 1), _absmax(w.np, a))
+
+
+@defop('vander', tol=_tol_vander)
+def _vander(w, xs, pr):
+    a, = xs
+    N, inc = pr
+    if w.n == 1: return w.np.vander(a, N, increasing=inc)
+    n = len(a)
+    N = n if N is None else N
+    one = w.const(1)
+    cols = []
+    for j in range(N):
+        col = []
+        for x in a:
+            v = one
+            for _ in range(j): v = v * x
+            col.append(v)
+        cols.append(col)
+    if not inc: cols.reverse()
+    out = w.np.empty((n, N), dtype=object)
+    for j, col in enumerate(cols):
+        for i, v in enumerate(col): out[i, j] = v
+    return out
+
+
+@defop('det')
+def _det(w, xs, pr):
+    a, = xs
+    if w.n == 1: return w.np.linalg.det(a)
+
+    def det(m):
+        n = len(m)
+        if n == 0: return w.const(1)
+        if n == 1: return m[0][0]
+        s = None
+        for j in range(n):
+            minor = [row[:j] + row[j + 1:] for row in m[1:]]
+            t = m[0][j] * det(minor)
+            if j % 2: t = -t
+            s = t if s is None else s + t
+        return s
+    return det([list(r) for r in a])
+
+
+# ------------------------------------------------------------------ comparisons and selection
+_CMP = {'lt': (_o.lt, 'less'), 'le': (_o.le, 'less_equal'), 'eq': (_o.eq, 'equal'), 'ne': (_o.ne, 'not_equal'), 'ge': (_o.ge, 'greater_equal'), 'gt': (_o.gt, 'greater')}
+
+
+def _cmpop(name):
+    pyop, uname = _CMP[name]
+
+    def fn(w, xs, pr):
+        a, b = xs
+        form = pr[0]
+        if w.n == 1:
+            if form == 'ufunc': return getattr(w.np, uname)(a, b)
+            if form == 'mpc': return getattr(w.mpc, 'np_' + uname)(a, b)
+            return pyop(a, b)
+        if w.n == 3: return w.ew(pyop, a, b)
+        return w.ew(lambda x, y: int(pyop(x, y)), a, b)
+    return fn
+
+
+for _n in _CMP:
+    OPS[_n] = Op(_n, _cmpop(_n), scalar=True)
+
+
+def _sgnval(x, LT, EQ):
+    if LT: return int(x < 0)
+    if EQ: return int(x == 0)
+    return (x > 0) - (x < 0)
+
+
+@defop('sgn', scalar=True)
+def _sgn(w, xs, pr):
+    a, = xs
+    l, LT, EQ = pr
+    if w.n == 1: return w.mpc.np_sgn(a, l=l, LT=LT, EQ=EQ)
+    if w.n == 3: return w.ew(lambda x: w.mpc.sgn(x, l=l, LT=LT, EQ=EQ), a)
+    return w.ew(lambda x: _sgnval(x, LT, EQ), a)
+
+
+@defop('abs', scalar=True)
+def _abs(w, xs, pr):
+    a, = xs
+    form = pr[0]
+    if w.n == 1:
+        if form == 'ufunc': return w.np.absolute(a)
+        if form == 'mpc': return w.mpc.np_absolute(a, l=pr[1])
+        return abs(a)
+    return w.ew(abs, a)
+
+
+@defop('minimum', scalar=True)
+def _minimum(w, xs, pr):
+    a, b = xs
+    if w.n == 1: return w.np.minimum(a, b) if pr[0] == 'ufunc' else w.mpc.np_minimum(a, b)
+    if w.n == 3: return w.ew(lambda x, y: w.mpc.min(x, y), a, b)
+    return w.ew(min, a, b)
+
+
+@defop('maximum', scalar=True)
+def _maximum(w, xs, pr):
+    a, b = xs
+    if w.n == 1: return w.np.maximum(a, b) if pr[0] == 'ufunc' else w.mpc.np_maximum(a, b)
+    if w.n == 3: return w.ew(lambda x, y: w.mpc.max(x, y), a, b)
+    return w.ew(max, a, b)
+
+
+@defop('where', scalar=True)
+def _where(w, xs, pr):
+    c, a, b = xs
+    if w.n == 1: return w.np.where(c, a, b) if pr[0] == 'np' else w.mpc.np_where(c, a, b)
+    if w.n == 3: return w.ew(lambda z, x, y: w.mpc.if_else(z, x, y), c, a, b)
+    return w.ew(lambda z, x, y: x if z == 1 else y, c, a, b)
+
+
+@defop('if_swap', scalar=True)
+def _if_swap(w, xs, pr):
+    c, a, b = xs
+    if w.n == 1: return tuple(w.mpc.np_if_swap(c, a, b))
+    if w.n == 3:
+        r = w.ew(lambda z, x, y: tuple(w.mpc.if_swap(z, x, y)), c, a, b)
+        return (w.ew(lambda t: t[0], r), w.ew(lambda t: t[1], r))
+    return (w.ew(lambda z, x, y: y if z == 1 else x, c, a, b), w.ew(lambda z, x, y: x if z == 1 else y, c, a, b))
+
+
+@defop('is_zero_public')
+def _izp(w, xs, pr):
+    a, = xs
+    if w.n == 1: return w.mpc.np_is_zero_public(a)
+    return w.ew(lambda x: int(x == 0), a)
+
+
+def _along(w, a, axis, fn, keep=None):
+    """apply fn(list) -> value (or list of the same length when keep == 'same') along an axis of an object array; axis None: flattened"""
+    np = w.np
+    if axis is None:
+        r = fn(list(a.reshape(-1)))
+        if keep == 'same': return objarr(np, r, (a.size,))
+        return r
+    b = np.moveaxis(a, axis, -1)
+    rows = b.reshape(-1, b.shape[-1]) if b.size or b.shape[-1] else b.reshape(math.prod(b.shape[:-1]), b.shape[-1])
+    if keep == 'same':
+        out = np.empty(rows.shape, dtype=object)
+        for i in range(rows.shape[0]):
+            r = fn(list(rows[i]))
+            for j, v in enumerate(r): out[i, j] = v
+        return np.moveaxis(out.reshape(b.shape), -1, axis)
+    out = np.empty(rows.shape[0], dtype=object)
+    for i in range(rows.shape[0]): out[i] = fn(list(rows[i]))
+    return out.reshape(b.shape[:-1])
+
+
+@defop('sort', scalar=True)
+def _sort(w, xs, pr):
+    a, = xs
+    form, axis, desc = pr
+    if w.n == 1:
+        kw = {} if not desc else {'key': (lambda x: -x)}
+        if form == 'np' and not desc: return w.np.sort(a, axis=axis)
+        if form == 'meth': return a.sort(axis=axis, **kw)
+        return w.mpc.np_sort(a, axis=axis, **kw)
+    if w.n == 3: return _along(w, a, axis, lambda r: w.mpc.sorted(r, reverse=desc), keep='same')
+    return _along(w, a, axis, lambda r: sorted(r, reverse=desc), keep='same')
+
+
+def _keep(np, r, a, axis, keepdims):
+    """reshape a reduction result to NumPy's keepdims shape"""
+    if not keepdims: return r
+    if axis is None: shape = (1,) * a.ndim
+    else:
+        ax = axis if isinstance(axis, tuple) else (axis,)
+        ax = [i % a.ndim for i in ax]
+        shape = tuple(1 if i in ax else s for i, s in enumerate(a.shape))
+    if isinstance(r, np.ndarray): return r.reshape(shape)
+    out = np.empty((), dtype=object); out[()] = r
+    return out.reshape(shape)
+
+
+def _along_axes(w, a, axis, fn):
+    """reduce over one axis, a tuple of axes, or all (None)"""
+    np = w.np
+    if axis is None or isinstance(axis, int): return _along(w, a, axis, fn)
+    ax = sorted(i % a.ndim for i in axis)
+    rest = [i for i in range(a.ndim) if i not in ax]
+    b = np.transpose(a, rest + ax)
+    b = b.reshape(tuple(a.shape[i] for i in rest) + (math.prod(a.shape[i] for i in ax),))
+    return _along(w, b, -1, fn)
+
+
+@defop('aminmax', scalar=True)
+def _aminmax(w, xs, pr):
+    a, = xs
+    which, form, axis, keepdims = pr
+    if w.n == 1:
+        if form == 'np': return getattr(w.np, 'a' + which)(a, axis=axis, keepdims=keepdims)
+        return getattr(w.mpc, 'np_a' + which)(a, axis=axis, keepdims=keepdims)
+    f = (w.mpc.min if which == 'min' else w.mpc.max) if w.n == 3 else (min if which == 'min' else max)
+    return _keep(w.np, _along_axes(w, a, axis, lambda r: f(r) if len(r) > 1 else r[0]), a, axis, keepdims)
+
+
+@defop('argminmax', scalar=True)
+def _argminmax(w, xs, pr):
+    """params: which ('min'/'max'), form ('np': np.argmin, 'mpc': mpc.np_argmin, 'meth': a.argmin), axis, keepdims, arg_unary, arg_only"""
+    a, = xs
+    which, form, axis, keepdims, unary, only = pr
+    np = w.np
+    if w.n == 1:
+        if form == 'np': return getattr(np, 'arg' + which)(a, axis=axis, keepdims=keepdims)
+        kw = dict(axis=axis, keepdims=keepdims, arg_unary=unary, arg_only=only)
+        r = getattr(a, 'arg' + which)(**kw) if form == 'meth' else getattr(w.mpc, 'np_arg' + which)(a, **kw)
+        return r if only else tuple(r)
+    pick_ = min if which == 'min' else max
+
+    def first(r):          # index of the first occurrence of the extreme value
+        if w.n == 3:
+            i, m = (w.mpc.argmin if which == 'min' else w.mpc.argmax)(r)
+            return (i, m)
+        m = pick_(r)
+        return (r.index(m), m)
+    if unary:
+        def uv(r):
+            i, m = first(r)
+            if w.n == 3: return w.mpc.unit_vector(i, len(r)) if len(r) > 1 else [type(r[0])(1)]
+            return [int(j == i) for j in range(len(r))]
+        u = _along(w, a, axis, uv, keep='same')
+    else:
+        u = _along(w, a, axis, lambda r: first(r)[0])
+        u = _keep(np, u, a, axis, keepdims)
+    if only: return u
+    m = _keep(np, _along(w, a, axis, lambda r: first(r)[1]), a, axis, keepdims)
+    if axis is not None and not keepdims: m = m.reshape(-1)          # documented: "a 1D array of minimum values ... with one entry per element of a with the given axis removed"
+    return (u, m)
+
+
+# ------------------------------------------------------------------ reductions
+def _red_kw(axis, keepdims):
+    kw = {}
+    if axis != 'default': kw['axis'] = axis
+    if keepdims: kw['keepdims'] = True
+    return kw
+
+
+@defop('sum', scalar=True)
+def _sum(w, xs, pr):
+    a = xs[0]
+    form, axis, keepdims, init = pr
+    kw = _red_kw(axis, keepdims)
+    if w.n == 1:
+        if init == 'S': kw['initial'] = xs[1]
+        elif init is not None: kw['initial'] = init
+        if form == 'meth': return a.sum(**kw)
+        if form == 'mpc': return w.mpc.np_sum(a, **kw)
+        return w.np.sum(a, **kw)
+    ax = None if axis == 'default' else axis
+    zero = w.const(0) if w.n == 2 else w.elt(0)
+
+    def f(r):
+        s = zero
+        for v in r: s = s + v
+        return s
+    r = _keep(w.np, _along_axes(w, a, ax, f), a, ax, keepdims)
+    if init is not None:
+        i0 = xs[1] if init == 'S' else (w.const(init) if w.n == 2 else init)
+        r = w.ew(lambda x: x + i0, r) if isinstance(r, w.np.ndarray) else r + i0
+    return r
+
+
+def _tol_prod(w, xs, pr, E, operands):
+    a = xs[0]
+    axis = pr[1]
+    if axis is None: k = a.size
+    else: k = math.prod(a.shape[i] for i in (axis if isinstance(axis, tuple) else (axis,)))
+    return _tree_tol(k, _absmax(w.np, a))
+
+
+@defop('prod', scalar=True, tol=_tol_prod)
+def _prod(w, xs, pr):
+    a, = xs
+    form, axis = pr
+    if w.n == 1:
+        if form == 'mpc': return w.mpc.np_prod(a, axis=axis)
+        return w.np.prod(a, axis=axis)
+    one = w.const(1) if w.n == 2 else w.elt(1)
+
+    def f(r):
+        s = None
+        for v in r: s = v if s is None else s * v
+        return one if s is None else s
+    return _along_axes(w, a, axis, f)
+
+
+@defop('allany', scalar=True)
+def _allany(w, xs, pr):
+    a, = xs
+    which, form, axis = pr
+    if w.n == 1:
+        if form == 'mpc': return getattr(w.mpc, 'np_' + which)(a, axis=axis)
+        return getattr(w.np, which)(a, axis=axis)
+    if w.n == 3: return _along_axes(w, a, axis, lambda r: getattr(w.mpc, which)(r) if r else w.cx.T(int(which == 'all')))
+    return _along_axes(w, a, axis, lambda r: int(all(v == 1 for v in r)) if which == 'all' else int(any(v == 1 for v in r)))
+
+
+@defop('cumsum')
+def _cumsum(w, xs, pr):
+    a, = xs
+    form, axis, incl = pr
+    if w.n == 1:
+        if form == 'cumulative_sum': return w.np.cumulative_sum(a, axis=axis, include_initial=incl)
+        return w.np.cumsum(a, axis=axis)
+    zero = w.const(0)
+
+    def f(r):
+        out, s = ([zero] if incl else []), zero
+        for v in r:
+            s = s + v; out.append(s)
+        return out
+    np = w.np
+    if a.ndim == 0: a = a.reshape(1)
+    if axis is None: return objarr(np, f(list(a.reshape(-1))), (a.size + (1 if incl else 0),))
+    b = np.moveaxis(a, axis, -1)
+    out = np.empty(b.shape[:-1] + (b.shape[-1] + (1 if incl else 0),), dtype=object)
+    for idx in np.ndindex(b.shape[:-1]):
+        for j, v in enumerate(f(list(b[idx]))): out[idx + (j,)] = v
+    return np.moveaxis(out, -1, axis)
+
+
+@defop('trace')
+def _trace(w, xs, pr):
+    a, = xs
+    form, offset, ax1, ax2 = pr
+    if w.n == 1:
+        if form == 'meth': return a.trace(offset, ax1, ax2)
+        return w.np.trace(a, offset=offset, axis1=ax1, axis2=ax2)
+    d = w.np.diagonal(a, offset=offset, axis1=ax1, axis2=ax2)
+    zero = w.const(0)
+
+    def f(r):
+        s = zero
+        for v in r: s = s + v
+        return s
+    return _along(w, d, -1, f)
+
+
+# ------------------------------------------------------------------ shape manipulation (data movement only: NumPy on the object array is the oracle)
+def _np_generic(name, world1=None):
+    """operation that is the NumPy function `name` in every world; params = (args tuple, kwargs items tuple)"""
+    def fn(w, xs, pr):
+        pargs, kw = pr[0], dict(pr[1])
+        f = getattr(w.np, name)
+        if w.n == 1 and world1: return world1(w, xs, pargs, kw)
+        return f(*xs, *pargs, **kw)
+    return fn
+
+
+for _n in ('reshape', 'expand_dims', 'squeeze', 'transpose', 'swapaxes', 'flip', 'fliplr', 'flipud', 'roll', 'rot90', 'diag', 'diagflat', 'diagonal', 'copy'):
+    OPS['np.' + _n] = Op('np.' + _n, _np_generic(_n))
+
+
+def _seq_generic(name):
+    """NumPy function taking a sequence of arrays first"""
+    def fn(w, xs, pr):
+        pargs, kw = pr[0], dict(pr[1])
+        return getattr(w.np, name)(tuple(xs), *pargs, **kw)
+    return fn
+
+
+for _n in ('concatenate', 'stack', 'hstack', 'vstack', 'dstack', 'column_stack'):
+    OPS['np.' + _n] = Op('np.' + _n, _seq_generic(_n))
+
+
+def _split_generic(name):
+    def fn(w, xs, pr):
+        a, = xs
+        pargs, kw = pr[0], dict(pr[1])
+        pargs = tuple(w.np.array(p) if isinstance(p, list) else p for p in pargs)
+        return list(getattr(w.np, name)(a, *pargs, **kw))
+    return fn
+
+
+for _n in ('split', 'hsplit', 'vsplit', 'dsplit'):
+    OPS['np.' + _n] = Op('np.' + _n, _split_generic(_n))
+
+
+@defop('np.append')
+def _append(w, xs, pr):
+    a, b = xs
+    return w.np.append(a, b, axis=pr[0])
+
+
+@defop('np.block')
+def _block(w, xs, pr):
+    """params: nesting pattern as nested lists of operand indices"""
+    def build(p): return [build(q) for q in p] if isinstance(p, list) else xs[p]
+    return w.np.block(build(pr[0]))
+
+
+@defop('meth')
+def _meth(w, xs, pr):
+    """array method / property of SecureArray with NumPy's ndarray as oracle: params (name, args, kwargs items)"""
+    a = xs[0]
+    name, pargs, kw = pr[0], pr[1], dict(pr[2])
+    if name == 'T': return a.T
+    if name == 'len': return len(a)
+    if name == 'iter': return list(a)
+    if name == 'flat': return list(a.flat)
+    if name == 'ndim': return a.ndim
+    if name == 'size': return int(a.size)
+    if name == 'bool': return bool(a) if w.n == 1 else bool(a.size)
+    if name == 'tolist':
+        r = a.tolist()
+        return r
+    return getattr(a, name)(*pargs, **kw)
+
+
+def _key(np, k):
+    """index key from literals: ('s', start, stop, step) slice, 'E' Ellipsis, 'N' newaxis, ('a', list) index array, ('m', list) bool mask, int, tuple of these"""
+    if isinstance(k, tuple) and k and k[0] == 's': return slice(k[1], k[2], k[3])
+    if isinstance(k, tuple) and k and k[0] == 'a': return np.array(k[1], dtype=int)
+    if isinstance(k, tuple) and k and k[0] == 'm': return np.array(k[1], dtype=bool)
+    if isinstance(k, tuple) and k and k[0] == 't': return tuple(_key(np, q) for q in k[1:])
+    if k == 'E': return Ellipsis
+    if k == 'N': return None
+    return k
+
+
+@defop('getitem')
+def _getitem(w, xs, pr):
+    a, = xs
+    key = _key(w.np, pr[0])
+    if w.n == 1 and pr[1] == 'mpc': return w.mpc.np_getitem(a, key)
+    return a[key]
+
+
+@defop('update')
+def _update(w, xs, pr):
+    a, v = xs
+    key = _key(w.np, pr[0])
+    if w.n == 1: return w.mpc.np_update(a, key, v)
+    a = a.copy()
+    a[key] = v
+    return a
+
+
+@defop('fromlist')
+def _fromlist(w, xs, pr):
+    a, = xs
+    if w.n == 1: return w.mpc.np_fromlist(w.mpc.np_tolist(a) if pr[0] == 'mpc' else a.tolist())
+    return a.copy()
+
+
+@defop('roll_secret', tol=lambda w, xs, pr, E, ops: 0)
+def _roll_secret(w, xs, pr):
+    a, s = xs
+    if w.n == 1: return w.np.roll(a, s)
+    return w.np.roll(a, int(s))
+
+
+# ------------------------------------------------------------------ input / output
+@defop('io')
+def _io(w, xs, pr):
+    a, = xs
+    how = pr[0]
+    if w.n != 1: return [a] if how == 'input_all' else a
+    mpc = w.mpc
+    if how == 'input0': return mpc.input(a, senders=0)
+    if how == 'input_all': return mpc.input(a)
+    if how == 'input_list': return mpc.input([a], senders=0)[0]
+    if how == 'reshare': return mpc._reshare(a)
+    if how == 'output_list': return a
+    return a
+
+
+# ------------------------------------------------------------------ bits
+def _bits_of(v, l):
+    return [(int(v) >> i) & 1 for i in range(l)]
+
+
+@defop('to_bits', scalar=True)
+def _to_bits(w, xs, pr):
+    a, = xs
+    l = pr[0]
+    np = w.np
+    if w.n == 1: return w.mpc.np_to_bits(a, l=l)
+    L = l
+    if L is None: L = _bitlen(w.tname) if w.kind != 'f' else (int(w.tname[1:]) - 1).bit_length()
+    out = np.empty(a.shape + (L,), dtype=object)
+    for idx in np.ndindex(a.shape):
+        if w.n == 3: bs = w.mpc.to_bits(a[idx], l)
+        elif w.kind == 'f': bs = _bits_of(a[idx].v, L)
+        else: bs = _bits_of(Fraction(a[idx]) * 2 ** w.f, L)          # two's complement bits of the scaled integer
+        for j, b in enumerate(bs): out[idx + (j,)] = b
+    return out
+
+
+@defop('from_bits', scalar=True)
+def _from_bits(w, xs, pr):
+    a, = xs
+    np = w.np
+    if w.n == 1: return w.mpc.np_from_bits(a)
+    out = np.empty(a.shape[:-1], dtype=object)
+    for idx in np.ndindex(a.shape[:-1]):
+        r = list(a[idx])
+        if w.n == 3: out[idx] = w.mpc.from_bits(r)
+        elif w.kind == 'f': out[idx] = FE(w.of, w.of.from_int(sum(int(b.v) << i for i, b in enumerate(r))))
+        else: out[idx] = sum(int(b) << i for i, b in enumerate(r))
+    return out
+
+
+@defop('bits_roundtrip')
+def _bits_rt(w, xs, pr):
+    a, = xs
+    if w.n == 1: return w.mpc.np_from_bits(w.mpc.np_to_bits(a))
+    return a
+
+
+@defop('trunc', scalar=True, tol=lambda w, xs, pr, E, ops: 1, itol=1)
+def _trunc(w, xs, pr):
+    """secure integers / fixed point: a / 2^f up to one unit (probabilistic rounding); compared in units of the result"""
+    a, = xs
+    f = pr[0]
+    if w.n == 1: return w.mpc.np_trunc(a, f=f)
+    if w.n == 3: return w.ew(lambda x: w.mpc.trunc(x, f=f), a)
+    return w.ew(lambda x: Fraction(x) / 2 ** (w.f if f is None else f), a)
+
+
+@defop('lsb', scalar=True)
+def _lsb(w, xs, pr):
+    a, = xs
+    if w.n == 1: return w.mpc.np_lsb(a)
+    if w.n == 3: return w.ew(lambda x: w.mpc.lsb(x), a)
+    return w.ew(lambda x: int(Fraction(x) * 2 ** w.f) % 2 if w.kind == 'i' else Fraction(int(Fraction(x) * 2 ** w.f) % 2, 1), a)
+
+
+@defop('unit_vector', scalar=True)
+def _unit_vector(w, xs, pr):
+    a, = xs
+    n = pr[0]
+    if w.n == 1: return w.mpc.np_unit_vector(a, n)
+    if w.n == 3: return objarr(w.np, w.mpc.unit_vector(a, n), (n,))
+    return objarr(w.np, [int(i == int(a) % n) for i in range(n)], (n,))
+
+
+@defop('find')
+def _find(w, xs, pr):
+    """np_find along the last axis: index of the first occurrence of the public value s (bits=True: 0/1 data), e if absent"""
+    a, = xs
+    s, bits, e = pr
+    if w.n == 1:
+        kw = {} if e == 'default' else {'e': e}
+        return w.mpc.np_find(a, s, bits=bits, **kw)
+
+    def f(r):
+        for i, v in enumerate(r):
+            if v == s: return i
+        return len(r) if e == 'default' else e
+    return _along(w, a, -1, f)
+
+
 # ================================================================================================ input domains
 def Tq(tier, q, th): return q if tier == 'quick' else th
 
@@ -759,9 +1492,9 @@ def pick(lst, n, salt):
     return random.Random(f'pick|{salt}').sample(lst, n)
 
 
-def pair_sample(tier, salt, nq, nt):
+def pair_sample(tier, salt, nq, nt, corners=True):
     ps = bpairs()
-    return CORNER_PAIRS + pick(ps, Tq(tier, nq, nt), salt)
+    return (CORNER_PAIRS if corners or tier != 'quick' else CORNER_PAIRS[:4]) + pick(ps, Tq(tier, nq, nt), salt)
 
 
 KIND_TYPES = {'i': ('i16',), 'x': ('x32.16',), 'f': ('f11', 'f16')}
@@ -842,6 +1575,834 @@ def in_div(kind):
     return gen_
 
 
+def mm_shapes(sizes=(0, 1, 2, 3)):
+    out = []
+    for n in sizes:
+        out.append(((n,), (n,)))
+        for m in sizes:
+            out += [((m, n), (n,)), ((n,), (n, m))]
+            for k in sizes:
+                out.append(((m, n), (n, k)))
+    for b in (2, 1, 0, 3):
+        for m, n, k in ((2, 3, 2), (1, 2, 3), (2, 0, 2), (0, 2, 1), (3, 1, 1), (2, 2, 2)):
+            out += [((b, m, n), (n, k)), ((m, n), (b, n, k)), ((b, m, n), (b, n, k)), ((1, m, n), (b, n, k)), ((b, m, n), (1, n, k)), ((b, m, n), (n,)), ((n,), (b, n, k))]
+    seen, res = set(), []
+    for p in out:
+        if p not in seen: seen.add(p); res.append(p)
+    return res
+
+
+def in_matmul(kind):
+    def gen_(tier):
+        j = 0
+        for tname in types_of(kind, tier):
+            shp = mm_shapes()
+            for form in ('@', 'np', 'mpc'):
+                for k1, k2 in (('A', 'A'), ('A', 'N'), ('N', 'A')):
+                    if form == 'mpc' and (k1, k2) != ('A', 'A'): continue
+                    for s1, s2 in pick(shp, Tq(tier, 40, len(shp)), f'mm{form}{k1}{k2}'):
+                        j += 1
+                        m1, m2 = _modes(kind, j)
+                        if kind == 'x' and j % 5 == 0: m1, m2 = ('F' if k1 == 'N' else m1), ('F' if k2 == 'N' else m2)
+                        if kind == 'i': m1 = m2 = 's' if j % 2 else 'i'
+                        yield (tname, 'matmul', ((k1, s1, j, m1), (k2, s2, j + 1, m2)), (form,))
+            for n in (1, 2, 3):
+                for s1 in ((n, n), (2, n, n), (n,)):
+                    j += 1
+                    yield (tname, 'matmul', (('A', s1, j, _modes(kind, j)[0] if kind != 'i' else 's'), ('A', s1, j, 'i' if kind != 'f' else 'm')), ('self',))
+            vs = shapes_upto(2, (0, 1, 2, 3))
+            for form in ('np', 'mpc'):
+                for k1, k2 in (('A', 'A'), ('A', 'N'), ('N', 'A')):
+                    if kind == 'x' and 'N' in (k1, k2): continue          # np_outer: "TODO: handle a or b public integral value" (documented restriction)
+                    for s1 in pick(vs, Tq(tier, 5, len(vs)), f'outer{form}{k1}{k2}'):
+                        for s2 in pick(vs, Tq(tier, 2, 6), f'outer2{s1}'):
+                            j += 1
+                            m1, m2 = _modes(kind, j)
+                            yield (tname, 'outer', ((k1, s1, j, m1), (k2, s2, j + 1, m2)), (form,))
+            for mode in ('full', 'same', 'valid'):
+                for k1, k2 in (('A', 'A'), ('A', 'N'), ('N', 'A')):
+                    for m in range(1, Tq(tier, 4, 6)):
+                        for n in range(1, Tq(tier, 4, 6)):
+                            j += 1
+                            m1, m2 = _modes(kind, j)
+                            yield (tname, 'convolve', ((k1, (m,), j, m1), (k2, (n,), j + 1, m2)), (mode,))
+            for n in range(0, 4):
+                for N in (None, 0, 1, 2, 3, 4):
+                    for inc in (False, True):
+                        j += 1
+                        yield (tname, 'vander', (('A', (n,), j, 'u' if kind != 'f' else 'm'),), (N, inc))
+        if kind != 'x':
+            for tname in (('i32',) if kind == 'i' else ('f257', 'f11')):
+                for n in (1, 2, 3):
+                    for sd in range(Tq(tier, 6, 40)):
+                        a = (tname, 'det', (('A', (n, n), 7000 + sd, 's' if kind == 'i' else 'm'),), ())
+                        if _nonsingular(a): yield a
+    return gen_
+
+
+def _int_det(m):
+    n = len(m)
+    if n == 0: return 1
+    if n == 1: return m[0][0]
+    return sum((-1) ** c * m[0][c] * _int_det([r[:c] + r[c + 1:] for r in m[1:]]) for c in range(n))
+
+
+def _nonsingular(args):
+    """np_det is documented for nonsingular matrices only"""
+    tname, _, (sp,), _ = args
+    n = sp[1][0]
+    es = gen(tname, sp)
+    d = _int_det([es[i * n:(i + 1) * n] for i in range(n)])
+    return d % int(tname[1:]) != 0 if tname[0] == 'f' else d != 0
+
+
+CMP_FORMS = [('A', 'A'), ('A', 'S'), ('S', 'A'), ('A', 'P'), ('P', 'A'), ('A', 'N'), ('N', 'A')]
+
+
+def in_compare(kind):
+    def gen_(tier):
+        j = 0
+        types = types_of(kind, tier) + (('i64',) if kind == 'i' else ())          # SecInt(64): equality by the probabilistic _np_is_zero (l/2 > k, Blum prime)
+        for tname in types:
+            for opn in (('lt', 'le', 'eq', 'ne', 'ge', 'gt') if kind != 'f' else ('eq', 'ne')):
+                for form in ('op', 'ufunc', 'mpc'):
+                    if form == 'mpc' and opn not in ('lt', 'eq'): continue
+                    for k1, k2 in CMP_FORMS:
+                        if form == 'mpc' and (k1, k2) != ('A', 'A'): continue
+                        for s1, s2 in pair_sample(tier, f'{opn}{form}{k1}{k2}', 3, 40, corners=opn in ('lt', 'eq')):
+                            j += 1
+                            mode = ('s', 's', 'w', 'i' if kind == 'x' else 's')[j % 4] if kind != 'f' else 's'
+                            if tname == 'i64' and j % 3: continue
+                            yield (tname, opn, _mkops(k1, k2, s1, s2, j, mode, mode), (form,))
+            if kind == 'f': continue
+            shp = shapes_upto(3, (0, 1, 2, 3))
+            l6 = 6 + _frac(tname)          # the l of np_sgn / np_absolute bounds the scaled integer: |value| < 32
+            for l, LT, EQ in ((None, False, False), (None, True, False), (None, False, True), (l6, False, False), (l6, True, False), (l6, False, True)):
+                for s1 in pick(shp, Tq(tier, 6, 40), f'sgn{l}{LT}{EQ}'):
+                    j += 1
+                    yield (tname, 'sgn', (('A', s1, j, 's' if l or j % 2 else 'w'),), (l, LT, EQ))
+            for form, l in (('op', None), ('ufunc', None), ('mpc', None), ('mpc', l6)):
+                for s1 in pick(shp, Tq(tier, 6, 40), f'abs{form}{l}'):
+                    j += 1
+                    yield (tname, 'abs', (('A', s1, j, 's' if l or j % 2 else 'm'),), (form, l))
+            for opn in ('minimum', 'maximum'):
+                for form in ('ufunc', 'mpc'):
+                    for k1, k2 in (('A', 'A'), ('A', 'S'), ('A', 'P'), ('P', 'A'), ('S', 'A'), ('A', 'N')):
+                        for s1, s2 in pair_sample(tier, f'{opn}{form}{k1}{k2}', 2, 30):
+                            j += 1
+                            mode = 's' if j % 2 else 'm'
+                            yield (tname, opn, _mkops(k1, k2, s1, s2, j, mode, mode), (form,))
+            for form in ('np', 'mpc'):
+                for ka, kb in (('A', 'A'), ('A', 'P'), ('P', 'A'), ('A', 'S'), ('S', 'A'), ('P', 'P')):
+                    for s1, s2 in pair_sample(tier, f'where{form}{ka}{kb}', 2, 30):
+                        j += 1
+                        sa = () if ka in 'SP' else s2
+                        sb = () if kb in 'SP' else s2
+                        m = 'i' if (kind == 'x' and 'P' in (ka, kb)) else 'm'
+                        yield (tname, 'where', (('A', s1, j, 'b'), (ka, sa, j + 1, m), (kb, sb, j + 2, m)), (form,))
+                        if form == 'mpc' and ka == 'A':
+                            yield (tname, 'if_swap', (('A', s1, j, 'b'), (ka, sa, j + 1, m), (kb, sb, j + 2, m)), ())
+            for s1 in pick(shp, Tq(tier, 8, 40), 'izp'):
+                j += 1
+                yield (tname, 'is_zero_public', (('A', s1, j, 's'),), ())
+    return gen_
+
+
+def _axes_of(shape, tuples=False, none=True):
+    nd = len(shape)
+    out = [None] if none else []
+    out += list(range(-nd, nd))
+    if tuples and nd >= 2:
+        out += [(0, 1), (-1, 0)] + ([(0, 2), (1, 2), (0, 1, 2), (2, -3)] if nd == 3 else [])
+    return out
+
+
+def in_sort(kind):
+    def gen_(tier):
+        j = 0
+        for tname in types_of(kind, tier):
+            shp = [(n,) for n in range(0, Tq(tier, 8, 12))] + [(2, 3), (3, 2), (1, 4), (4, 1), (0, 3), (3, 0), (2, 5), (2, 2, 3), (3, 1, 2), (2, 3, 4), (2, 0, 2)]
+            for form in ('np', 'meth', 'mpc'):
+                for s1 in shp:
+                    for axis in _axes_of(s1):
+                        for desc in ((False,) if form == 'np' else (False, True)):
+                            j += 1
+                            if tier == 'quick' and len(s1) > 1 and j % 3: continue
+                            yield (tname, 'sort', (('A', s1, j, 's' if j % 2 else 'm'),), (form, axis, desc))
+            shp = [(n,) for n in range(1, Tq(tier, 7, 10))] + [(2, 3), (3, 2), (1, 4), (4, 1), (2, 5), (2, 2, 3), (3, 1, 2), (2, 3, 4)]
+            for which in ('min', 'max'):
+                for form in ('np', 'mpc'):
+                    for s1 in shp:
+                        for axis in _axes_of(s1, tuples=True):
+                            for keepdims in (False, True):
+                                j += 1
+                                if tier == 'quick' and len(s1) > 1 and j % 4: continue
+                                yield (tname, 'aminmax', (('A', s1, j, 's' if j % 2 else 'm'),), (which, form, axis, keepdims))
+                for s1 in shp:
+                    for axis in _axes_of(s1):
+                        for keepdims in (False, True):
+                            combos = [('np', False, True), ('mpc', False, True), ('mpc', True, True), ('mpc', False, False), ('mpc', True, False), ('meth', True, False)]
+                            for form, unary, only in combos:
+                                j += 1
+                                if tier == 'quick' and j % (5 if len(s1) > 1 else 2): continue
+                                yield (tname, 'argminmax', (('A', s1, j, 's' if j % 3 else 'm'),), (which, form, axis, keepdims, unary, only))
+    return gen_
+
+
+def in_reduce(kind):
+    def gen_(tier):
+        j = 0
+        for tname in types_of(kind, tier):
+            shp = shapes_upto(3, (0, 1, 2, 3)) + [(4,), (4, 4), (2, 4)]
+            for form in ('np', 'meth', 'mpc'):
+                for s1 in pick(shp, Tq(tier, 14, len(shp)), f'sum{form}'):
+                    for axis in ['default'] + _axes_of(s1, tuples=True):
+                        for keepdims in (False, True):
+                            for init in (None, 3, 'S'):
+                                j += 1
+                                if init is not None and j % 4: continue
+                                if tier == 'quick' and j % 3: continue
+                                ops = (('A', s1, j, _modes(kind, j)[0]),) + ((('S', (), j + 1, 'm'),) if init == 'S' else ())
+                                yield (tname, 'sum', ops, (form, axis, keepdims, init))
+            pt = tname if kind != 'i' else 'i32'
+            pshp = [s for s in shp if math.prod(s) <= 12 or (0 in s)]
+            for form in ('np', 'mpc'):
+                for s1 in pick(pshp, Tq(tier, 14, len(pshp)), f'prod{form}'):
+                    for axis in _axes_of(s1, tuples=True):
+                        j += 1
+                        if tier == 'quick' and j % 2: continue
+                        yield (pt, 'prod', (('A', s1, j, 'u' if kind != 'f' else 'nz'),), (form, axis))
+            for which in ('all', 'any'):
+                for form in ('np', 'mpc'):
+                    for s1 in pick(shp, Tq(tier, 10, len(shp)), f'{which}{form}'):
+                        for axis in _axes_of(s1, tuples=True):
+                            j += 1
+                            if tier == 'quick' and j % 2: continue
+                            yield (tname, 'allany', (('A', s1, j, 'b'),), (which, form, axis))
+            for s1 in pick(shp, Tq(tier, 12, len(shp)), 'cumsum'):
+                for axis in _axes_of(s1):
+                    j += 1
+                    yield (tname, 'cumsum', (('A', s1, j, _modes(kind, j)[0]),), ('cumsum', axis, False))
+                    if axis is not None or len(s1) < 2:
+                        for incl in (False, True):
+                            yield (tname, 'cumsum', (('A', s1, j, _modes(kind, j)[0]),), ('cumulative_sum', axis, incl))
+            for s1 in ((2, 2), (2, 3), (3, 2), (1, 3), (0, 2), (2, 3, 3), (3, 2, 2), (2, 2, 0)):
+                for offset in (-1, 0, 1, 2):
+                    for ax1, ax2 in ((0, 1), (1, 0), (-1, -2)) + (((0, 2), (2, 1), (1, 2)) if len(s1) == 3 else ()):
+                        for form in ('np', 'meth'):
+                            j += 1
+                            if tier == 'quick' and j % 3: continue
+                            yield (tname, 'trace', (('A', s1, j, _modes(kind, j)[0]),), (form, offset, ax1, ax2))
+    return gen_
+
+
+def _reshapes(s):
+    n = math.prod(s)
+    out = {(n,), (-1,), s}
+    for a in range(1, 5):
+        if n % a == 0 and n:
+            out |= {(a, n // a), (a, -1), (-1, a), (a, 1, n // a)}
+            for b in range(1, 4):
+                if (n // a) % b == 0: out.add((a, b, n // a // b))
+    if n == 0: out |= {(0,), (0, 3), (2, 0), (0, -1) if False else (0, 1)}
+    return sorted(out)
+
+
+def _items(s):
+    """index keys valid for shape s (encodings of `_key`)"""
+    nd = len(s)
+    keys = ['E', ('t',), ('t', 'E'), ('t', 'N'), ('t', 'N', 'E'), ('t', 'E', 'N')]
+    if nd >= 1:
+        n = s[0]
+        keys += [('s', None, None, None), ('s', 1, None, None), ('s', None, -1, None), ('s', None, None, 2), ('s', None, None, -1), ('s', 5, 1, -2), ('s', 0, 0, None),
+                 ('t', ('s', None, None, None), 'N'), ('t', 'N', ('s', 0, 2, None))]
+        if n: keys += [0, -1, n - 1, ('t', 0), ('t', -1, 'E'), ('a', [0, n - 1, 0]), ('a', [[0], [n - 1]]), ('m', [i % 2 == 0 for i in range(n)]), ('t', 0, 'N')]
+    if nd >= 2:
+        a, b = s[0], s[1]
+        keys += [('t', ('s', None, None, None), ('s', 1, None, None)), ('t', 'E', ('s', None, None, 2)), ('t', ('s', None, None, -1), 'E'), ('t', ('s', 0, 1, None), 'N', ('s', None, None, None))]
+        if a and b and s[-1]: keys += [('t', 'E', 0)]
+        if a and b: keys += [('t', 0, 0), ('t', -1, b - 1), ('t', ('s', None, None, None), 0), ('t', 0, ('s', None, None, None)), ('t', 0, 'E'), ('t', 0, 'N', 0),
+                             ('t', ('a', [0, a - 1]), ('a', [b - 1, 0])), ('t', ('a', [0, a - 1]), ('s', None, None, None)), ('t', ('s', None, None, None), ('a', [0]))]
+    if nd >= 3:
+        a, b, c = s
+        keys += [('t', 'E', ('s', None, 1, None)), ('t', ('s', None, None, None), 'E', ('s', 1, None, None)), ('t', ('s', None, None, None), 'N', 'E')]
+        if a and b and c: keys += [('t', 0, 0, 0), ('t', 0, 'E', 0), ('t', 'E', 0, ('s', None, None, None)), ('t', -1, ('s', None, None, None), c - 1), ('t', 0, ('a', [0, b - 1]), 'E')]
+    return keys
+
+
+def _item_shape(s, key):
+    np = _np()
+    return tuple(np.empty(s)[_key(np, key)].shape)
+
+
+def in_reshape(kind):
+    def gen_(tier):
+        j = 0
+        G = lambda *a, **k: (a, tuple(sorted(k.items())))
+        for tname in types_of(kind, tier):
+            shp = shapes_upto(3, (0, 1, 2, 3)) + [(4,), (2, 4), (4, 1, 2)]
+            for s in pick(shp, Tq(tier, 30, len(shp)), 'reshape'):
+                j += 1
+                md = _modes(kind, j)[0]
+                A = ('A', s, j, md)
+                nd = len(s)
+                one = lambda op, pr, *more: (tname, op, (A,) + more, pr)
+                for t in _reshapes(s):
+                    yield one('np.reshape', G(t))
+                    if t != (): yield one('meth', ('reshape', t, ()))
+                    if len(t) > 1: yield one('meth', ('reshape', (t,), (('order', 'F'),)))
+                if math.prod(s): yield one('np.reshape', G(-1)); yield one('np.reshape', G(s[::-1], order='F'))
+                for o in ('C', 'F'):
+                    yield one('meth', ('flatten', (), (('order', o),)))
+                yield one('meth', ('flatten', (), ()))
+                yield one('meth', ('copy', (), ())); yield one('np.copy', G())
+                yield one('meth', ('T', (), ())); yield one('meth', ('transpose', (), ())); yield one('np.transpose', G())
+                for m_ in ('len', 'iter', 'flat', 'ndim', 'size', 'bool', 'tolist'):
+                    if m_ in ('len', 'iter') and nd == 0: continue
+                    yield one('meth', (m_, (), ()))
+                yield one('fromlist', ('mpc',)) if nd == 1 and s[0] else one('meth', ('ndim', (), ()))
+                for perm in itertools.permutations(range(nd)):
+                    if nd >= 2:
+                        yield one('np.transpose', G(perm)); yield one('meth', ('transpose', perm, ())); yield one('meth', ('transpose', (list(perm),), ()))
+                for a1 in range(-nd, nd):
+                    for a2 in range(-nd, nd):
+                        if (a1 + a2 + j) % 2 and tier == 'quick': continue
+                        yield one('np.swapaxes', G(a1, a2)); yield one('meth', ('swapaxes', (a1, a2), ()))
+                ones = [i for i, d in enumerate(s) if d == 1]
+                yield one('np.squeeze', G())
+                for i in ones:
+                    yield one('np.squeeze', G(i)); yield one('np.squeeze', G(i - nd))
+                if len(ones) >= 2: yield one('np.squeeze', G(tuple(ones[:2])))
+                for ax in list(range(-nd - 1, nd + 1)) + [(0, 1), (0, -1), (nd + 1, 0)]:
+                    yield one('np.expand_dims', G(ax))
+                for ax in [None] + list(range(-nd, nd)) + ([(0, 1), (-1, 0)] if nd >= 2 else []):
+                    yield one('np.flip', G(ax)) if ax is not None else one('np.flip', G())
+                if nd >= 1: yield one('np.flipud', G())
+                if nd >= 2: yield one('np.fliplr', G())
+                for sh in (0, 1, -1, 2, 5):
+                    yield one('np.roll', G(sh))
+                    for ax in range(-nd, nd):
+                        if tier == 'quick' and (sh + ax + j) % 2: continue
+                        yield one('np.roll', G(sh, ax))
+                if nd >= 2:
+                    for k in (-1, 0, 1, 2, 3, 4):
+                        yield one('np.rot90', G(k)) if k != 1 else one('np.rot90', G())
+                        for axes in ((1, 0), (0, -1)) + (((0, 2), (1, 2), (2, 1)) if nd == 3 else ()):
+                            if tier == 'quick' and (k + j) % 2: continue
+                            yield one('np.rot90', G(k, axes))
+                    for off in (-1, 0, 1, 2):
+                        yield one('np.diagonal', G(off))
+                        yield one('meth', ('diagonal', (off,), ()))
+                        if nd == 3: yield one('np.diagonal', G(off, 2, 0)); yield one('np.diagonal', G(offset=off, axis1=-1, axis2=1))
+                if nd in (1, 2):
+                    for k in (-2, -1, 0, 1, 2): yield one('np.diag', G(k))
+                    yield one('np.diag', G())
+                for k in (-1, 0, 2): yield one('np.diagflat', G(k))
+                # joining: operands of equal shape; one of them may be a public ndarray
+                B = ('A', s, j + 1, _modes(kind, j)[1]); N_ = ('N', s, j + 2, 'i' if j % 2 else ('m' if kind != 'x' else 'F'))
+                for others in ((B,), (B, A), (N_,), (B, N_)):
+                    if tier == 'quick' and len(others) == 2 and j % 2: continue
+                    if nd >= 1:
+                        for ax in list(range(-nd, nd)) + [None]:
+                            yield one('np.concatenate', G(axis=ax), *others)
+                        yield one('np.concatenate', G(), *others)
+                        yield one('np.hstack', G(), *others); yield one('np.vstack', G(), *others); yield one('np.dstack', G(), *others)
+                        if nd <= 2: yield one('np.column_stack', G(), *others)
+                        for ax in (None, 0, -1): yield one('np.append', (ax,), others[0])
+                    for ax in range(-nd - 1, nd + 1):
+                        yield one('np.stack', G(axis=ax), *others)
+                    yield one('np.stack', G(), *others)
+                if nd >= 1:
+                    yield (tname, 'np.block', (A, B), ([0, 1],))
+                    yield (tname, 'np.block', (A, B), ([[0], [1]],))
+                    if nd == 2: yield (tname, 'np.block', (A, B, B, A), ([[0, 1], [2, 3]],))
+                for ax in range(-nd, nd):
+                    n = s[ax]
+                    for k in range(1, 5):
+                        if n % k == 0 and (n or k == 1):
+                            yield one('np.split', G(k, ax)) if ax else one('np.split', G(k))
+                    if n >= 2: yield one('np.split', G([1], ax)); yield one('np.split', G([1, n - 1], ax))
+                if nd >= 2 and s[0]: yield one('np.vsplit', G(s[0])); yield one('np.vsplit', G(1))
+                if nd >= 2 and s[1]: yield one('np.hsplit', G(s[1]))
+                if nd == 1 and s[0]: yield one('np.hsplit', G(s[0]))
+                if nd >= 3 and s[2]: yield one('np.dsplit', G(s[2])); yield one('np.dsplit', G(1))
+                for key in _items(s):
+                    yield one('getitem', (key, 'op'))
+                    if (len(repr(key)) + j) % 3 == 0 or tier != 'quick': yield one('getitem', (key, 'mpc'))
+                    try: ish = _item_shape(s, key)
+                    except Exception: continue
+                    vm = _modes(kind, j)[1]
+                    if ish == (): yield one('update', (key,), ('S', (), j + 3, vm))
+                    else:
+                        yield one('update', (key,), ('A', ish, j + 3, vm))
+                        yield one('update', (key,), ('S', (), j + 3, vm))
+                        if len(ish) >= 1: yield one('update', (key,), ('A', ish[-1:], j + 3, vm))          # broadcast value
+                    if kind != 'x': yield one('update', (key,), ('P', (), j + 3, 's'))
+                if nd == 1 and s[0] and kind != 'f':
+                    for sh in range(s[0] + 1):
+                        yield (tname, 'roll_secret', (A, ('S', (), j, 'P%d' % sh)), ())
+    return gen_
+
+
+def in_io(kind):
+    def gen_(tier):
+        j = 0
+        for tname in types_of(kind, tier):
+            shp = shapes_upto(3, (0, 1, 2, 3))
+            for how in ('plain', 'input0', 'input_all', 'input_list', 'reshare'):
+                for s in pick(shp, Tq(tier, 20, len(shp)), f'io{how}'):
+                    j += 1
+                    yield (tname, 'io', (('A', s, j, _modes(kind, j)[0]),), (how,))
+    return gen_
+
+
+def in_bits(kind):
+    def gen_(tier):
+        j = 0
+        for tname in types_of(kind, tier):
+            L = _bitlen(tname) if kind != 'f' else (int(tname[1:]) - 1).bit_length()
+            shp = [s for s in shapes_upto(3, (0, 1, 2, 3)) if math.prod(s) <= 6]
+            if kind == 'f' and _prime_factor(int(tname[1:]))[1] > 1 and _prime_factor(int(tname[1:]))[0] != 2: continue        # odd extension fields: documented TypeError
+            for s in pick(shp, Tq(tier, 10, len(shp)), 'to_bits'):
+                for l in (None, 1, 3, L) + ((L + 2, L + _frac(tname)) if kind == 'x' else ()):
+                    j += 1
+                    if kind == 'f' and l not in (None, L): continue
+                    for mode in (('s', 'm', 'i') if kind == 'x' else ('s', 'm')):
+                        if l is not None and l > L: mode = 'p'          # bits above the bit length are not defined for negative values
+                        yield (tname, 'to_bits', (('A', s, j, mode),), (l,))
+                if kind != 'x':          # fixed point: from_bits reads the bits as an integer, the round trip is a * 2^f by design
+                    yield (tname, 'bits_roundtrip', (('A', s, j, 'p' if kind != 'f' else 'm'),), ())
+                for l in (1, 2, 5):
+                    j += 1
+                    yield (tname, 'from_bits', (('A', s + (l,), j, 'b'),), ())
+            if kind == 'f': continue
+            for s in pick(shp, Tq(tier, 10, len(shp)), 'trunc'):
+                for f in ((1, 3) if kind == 'i' else (None, 2, 16)):
+                    j += 1
+                    yield (tname, 'trunc', (('A', s, j, 'm'),), (f,))
+                j += 1
+                yield (tname, 'lsb', (('A', s, j, 'm'),), ())
+            for n in range(1, Tq(tier, 6, 9)):
+                for a in range(n):
+                    yield (tname, 'unit_vector', (('S', (), j, 'P%d' % a),), (n,))
+            for s in pick([s for s in shapes_upto(3, (0, 1, 2, 3, 4)) if s], Tq(tier, 12, 60), 'find'):
+                j += 1
+                for sv in (0, 1):
+                    for e in ('default', -1):
+                        yield (tname, 'find', (('A', s, j, 'b'),), (sv, True, e))
+                        yield (tname, 'find', (('A', s, j, 'i' if kind == 'x' else 's'),), (sv, False, e))
+    return gen_
+
+
+# ================================================================================================ np_random_bits
+def call_random_bits(tname, n, signed, seed):
+    mpc, np = _rt()
+    cx = Cx(mpc, np, tname)
+    _seed(mpc, seed)
+    x = mpc.np_random_bits(cx.T, n, signed=signed)
+    return mpc.run(_open(cx, [x]))[0]
+
+
+def ck_random_bits(args, res, exc):
+    tname, n, signed, seed = args
+    if exc: return f'unexpected {type(exc).__name__}: {exc}'
+    if res['kind'] != 'a' or res['decl'] != (n,) or res['shape'] != (n,): return f'expected a secure array of shape ({n},), got {res["type"]} declared {res["decl"]} opened {res["shape"]}'
+    if tname[0] == 'x' and res['integral'] is not True: return f'integral flag {res["integral"]!r}, bits are integers'
+    q = int(tname[1:]) if tname[0] == 'f' else None
+    ok = {0, 1} if not signed else ({1, q - 1} if tname[0] == 'f' and _prime_factor(q)[1] == 1 else {1, -1})
+    bad = [v for v in res['v'] if v not in ok]
+    return not bad or f'values {bad[:5]} are not in {sorted(ok)}'
+
+
+def in_random_bits(tier):
+    for tname in ('i16', 'x32.16', 'f11', 'f16', 'f9', 'f257'):
+        for n in (0, 1, 2, 7, 33):
+            for signed in (False, True):
+                if signed and tname in ('f16', 'f9'): continue
+                for seed in range(Tq(tier, 3, 20)):
+                    yield (tname, n, signed, seed)
+
+
+# ================================================================================================ finfields.FiniteFieldArray (public arrays)
+FF_OPS = ('add', 'sub', 'mul', 'div', 'neg', 'pow', 'matmul', 'eq', 'ne', 'sum', 'prod', 'cumsum', 'trace', 'np.reshape', 'np.transpose', 'np.concatenate', 'np.stack', 'np.roll', 'np.diag',
+          'getitem', 'meth', 'outer', 'convolve')
+
+
+def _mk_pub(cx, spec):
+    """public operand: finite field array / field element / int / ndarray"""
+    np, F = cx.np, cx.T.field
+    okind, shape, seed, mode = spec
+    es = gen(cx.tname, spec)
+    if okind == 'P': return es[0]
+    if okind == 'S': return F(es[0])
+    a = np.array(es, dtype=object).reshape(shape) if es else np.zeros(shape, dtype=object)
+    return F.array(a) if okind == 'A' else a
+
+
+def _mk_elts(cx, spec):
+    np, F = cx.np, cx.T.field
+    okind, shape, seed, mode = spec
+    es = gen(cx.tname, spec)
+    if okind == 'P': return es[0]
+    if okind == 'S': return F(es[0])
+    return objarr(np, [F(e) if okind == 'A' else e for e in es], shape)
+
+
+def call_ff(tname, opname, operands, pr):
+    mpc, np = _rt()
+    cx = Cx(mpc, np, tname)
+    op = OPS[opname]
+    res = Res(mod=cx.mod)
+    w = World(1, np, cx)
+    R = op.fn(w, [_mk_pub(cx, sp) for sp in operands], pr)
+    res['struct'] = _walk(cx, R, [])
+    res['leaves'] = []
+    if op.scalar:
+        w = World(3, np, cx, elt=cx.T.field)
+        R = op.fn(w, [_mk_elts(cx, sp) for sp in operands], pr)
+        res['sstruct'] = _walk_elts(cx, R)
+        res['sleaves'] = []
+    return res
+
+
+def ck_ff(args, res, exc):
+    tname, opname, operands, pr = args
+    # np.divide as a ufunc (np.divide(a, b), and ndarray / field array, which NumPy dispatches to the ufunc) is applied to the representatives
+    ufunc_div = opname == 'div' and (pr[0] == 'ufunc' or operands[0][0] == 'N')
+    if exc is not None:
+        msg = f'unexpected {type(exc).__name__}: {exc}'
+        if ufunc_div and isinstance(exc, (ValueError, TypeError)): return ('class', 'np.divide-ufunc-on-field-array:division-of-representatives', msg)
+        return msg
+    m = check_res(args, res)
+    if m is None or m is True: return None
+    if ufunc_div: return ('class', 'np.divide-ufunc-on-field-array:division-of-representatives', m)
+    return m
+
+
+def _walk_elts(cx, R):
+    np = cx.np
+    if isinstance(R, (list, tuple)): return ('L' if isinstance(R, list) else 'T', [_walk_elts(cx, x) for x in R])
+    if isinstance(R, np.ndarray): return ('P', tuple(R.shape), [cx.enc(v) if isinstance(v, cx.T.field) else _ex(v) for v in R.reshape(-1)])
+    return ('P', (), [cx.enc(R) if isinstance(R, cx.T.field) else _ex(R)])
+
+
+def in_ff(tier):
+    j = 0
+    for tname in ('f11', 'f16', 'f9', 'f257') + (('f8', 'f2', 'f4') if tier != 'quick' else ()):
+        nq, nt = 4, 30
+        for opn in ('add', 'sub', 'mul', 'div'):
+            for form in ('op', 'ufunc'):
+                for k1, k2 in OPERAND_FORMS:
+                    for s1, s2 in pair_sample(tier, f'ff{opn}{form}{k1}{k2}', nq, nt):
+                        j += 1
+                        yield (tname, opn, _mkops(k1, k2, s1, s2, j, 'm', 'nz' if opn == 'div' else 'm'), (form,))
+        shp = shapes_upto(3, (0, 1, 2, 3))
+        for s1 in pick(shp, Tq(tier, 10, len(shp)), 'ffunary'):
+            j += 1
+            yield (tname, 'neg', (('A', s1, j, 'm'),), ('op',)); yield (tname, 'neg', (('A', s1, j, 'm'),), ('ufunc',))
+            for e in (0, 1, 2, 3, 7, -1, -2):
+                yield (tname, 'pow', (('A', s1, j, 'nz' if e < 0 else 'm'),), (e, 'op'))
+            for opn in ('eq', 'ne'):
+                yield (tname, opn, (('A', s1, j, 's'), ('A', s1, j + 1, 's')), ('op',))
+                yield (tname, opn, (('A', s1, j, 's'), ('P', (), j + 1, 's')), ('op',))
+            for axis in ['default'] + _axes_of(s1, tuples=True):
+                for keepdims in (False, True):
+                    yield (tname, 'sum', (('A', s1, j, 'm'),), ('np', axis, keepdims, None))
+                    yield (tname, 'sum', (('A', s1, j, 'm'),), ('meth', axis, keepdims, None))
+                if axis != 'default' and math.prod(s1) <= 12: yield (tname, 'prod', (('A', s1, j, 'nz'),), ('np', axis))
+            for t in _reshapes(s1): yield (tname, 'np.reshape', (('A', s1, j, 'm'),), ((t,), ()))
+            yield (tname, 'np.transpose', (('A', s1, j, 'm'),), ((), ()))
+            for key in _items(s1): yield (tname, 'getitem', (('A', s1, j, 'm'),), (key, 'op'))
+            if len(s1) >= 1:
+                for ax in range(-len(s1), len(s1)):
+                    yield (tname, 'np.concatenate', (('A', s1, j, 'm'), ('A', s1, j + 1, 'm')), ((), (('axis', ax),)))
+            for ax in range(-len(s1) - 1, len(s1) + 1):
+                yield (tname, 'np.stack', (('A', s1, j, 'm'), ('A', s1, j + 1, 'm')), ((), (('axis', ax),)))
+        for s1, s2 in pick(mm_shapes(), Tq(tier, 40, 400), 'ffmm'):
+            for k1, k2 in (('A', 'A'), ('A', 'N'), ('N', 'A')):
+                j += 1
+                yield (tname, 'matmul', ((k1, s1, j, 'm'), (k2, s2, j + 1, 'm')), ('@',))
+
+
+# ================================================================================================ thresha: array-based sharing vs list-based
+def call_split(lit, t, m, secrets_, coef, form):
+    """np_random_split and random_split on the same secrets with the same dealer coefficients coef[h][d-1] (of X^d); np_recombine / recombine of every subset of >= t+1 shares"""
+    mpc, np = _rt()
+    from contracts import thresha_native as TN
+    from mpyc import thresha
+    F = TN.mfield(lit); of = TN.ofield(lit)
+    n = len(secrets_)
+    raw = [TN.to_raw(F, a) for a in secrets_]
+    s_np = objarr(np, raw, (n,))
+    if form == 'arr': s_np = F.array(s_np, check=False)
+    script_np = [coef[h][d] for d in range(t) for h in range(n)]                 # C.reshape(t, n): draw k is the coefficient of X^(k//n+1) of secret k % n
+    script_list = [coef[h][t - 1 - j] for h in range(n) for j in range(t)]        # per secret c[0..t-1], c[j] the coefficient of X^(t-j)
+    with TN.patched(TN.Script(script_np)) as sn:
+        sh_np = thresha.np_random_split(F, s_np, t, m)
+    with TN.patched(TN.Script(script_list)) as sl:
+        sh_list = thresha.random_split(F, list(raw), t, m) if n else []
+    res = Res(draws_np=list(sn.log), draws_list=list(sl.log), q=of.q)
+    res['np_type'] = type(sh_np).__name__
+    res['np_shape'] = tuple(sh_np.shape)
+    res['np'] = [[TN.enc_red(F, of, v) for v in row] for row in sh_np]
+    res['list'] = [[TN.enc_red(F, of, v) for v in row] for row in sh_list]
+    rec = {}
+    for A in TN.subsets_ge(m, t + 1):
+        pts = [(i + 1, sh_np[i]) for i in A]
+        r = thresha.np_recombine(F, pts)
+        rr = thresha.np_recombine(F, pts, [0, m + 1]) if of.q > m + 1 else None
+        lst = thresha.recombine(F, [(i + 1, list(sh_np[i])) for i in A]) if n else []
+        rec[A] = (type(r).__name__, tuple(r.shape), [cx_enc(F, of, v) for v in (r.value if hasattr(r, 'value') else r)],
+                  None if rr is None else [[cx_enc(F, of, v) for v in row] for row in (rr.value if hasattr(rr, 'value') else rr)],
+                  [TN.enc_any(F, of, v) for v in lst])
+    res['rec'] = rec
+    return res
+
+
+def cx_enc(F, of, v):
+    from contracts import thresha_native as TN
+    return TN.enc_elt(F, of, v) if isinstance(v, F) else TN.enc_red(F, of, v)
+
+
+def ck_split(args, res, exc):
+    lit, t, m, secrets_, coef, form = args
+    if exc: return f'unexpected {type(exc).__name__}: {exc}'
+    from contracts import thresha_native as TN
+    of = TN.ofield(lit)
+    n = len(secrets_)
+    if res['np_shape'] != (m, n): return f'np_random_split returns shape {res["np_shape"]}, expected one row per party ({m}, {n})'
+    if res['draws_np'] != [of.q] * (t * n): return f'np_random_split drew randbelow{res["draws_np"][:6]}.., expected t*n = {t * n} draws below the field order {of.q}'
+    exp = [[of.sum([secrets_[h]] + [of.mul(coef[h][d - 1], of.pow(of.from_int(i), d)) for d in range(1, t + 1)]) for h in range(n)] for i in range(1, m + 1)]
+    if res['np'] != exp: return f'np_random_split shares {res["np"]} are not the values f_h(i) = s_h + sum_d c_hd i^d: {exp}'
+    if n and res['list'] != exp: return f'random_split with the same coefficients gives {res["list"]}, np_random_split {res["np"]}'
+    for A, (tp, shape, r, rr, lst) in res['rec'].items():
+        if shape != (n,): return f'np_recombine of shares {A}: shape {shape}, expected ({n},)'
+        if r != list(secrets_): return f'np_recombine of the shares of parties {A} gives {r}, secrets {list(secrets_)}'
+        if n and lst != list(secrets_): return f'recombine (list version) of the shares of parties {A} gives {lst}'
+        if rr is not None:
+            e1 = [of.sum([secrets_[h]] + [of.mul(coef[h][d - 1], of.pow(of.from_int(m + 1), d)) for d in range(1, t + 1)]) for h in range(n)]
+            if rr != [list(secrets_), e1]: return f'np_recombine at x = [0, {m + 1}] from parties {A} gives {rr}, expected {[list(secrets_), e1]}'
+    return None
+
+
+def in_split(tier):
+    from contracts import thresha_native as TN
+    fields = [('p', 7), ('p', 11), ('p', 101), ('p', TN.M31), ('x', 2, 3), ('x', 3, 2), ('x', 2, 4)]
+    for lit in fields:
+        q = TN.lit_q(lit)
+        for m in range(1, 6):
+            if m > q - 1: continue
+            for t in range(m):
+                for n in (0, 1, 2, 4):
+                    for sd in range(Tq(tier, 2, 8)):
+                        r = random.Random(f'split|{lit}|{m}|{t}|{n}|{sd}')
+                        s = tuple(r.choice((0, 1, q - 1, r.randrange(q))) for _ in range(n))
+                        coef = tuple(tuple(r.choice((0, q - 1, r.randrange(q))) for _ in range(t)) for _ in range(n))
+                        yield (lit, t, m, s, coef, 'arr' if (sd + n) % 2 else 'raw')
+
+
+def call_prss(lit, m, t, n, bound, uci, keyseed):
+    """np_pseudorandom_share / np_pseudorandom_share_0 of EVERY party against the list versions with the same PRF keys"""
+    mpc, np = _rt()
+    from contracts import thresha_native as TN
+    from mpyc import thresha
+    F = TN.mfield(lit); of = TN.ofield(lit)
+    thresha._f_S_i.cache_clear()
+    b = of.q if bound is None else bound
+    u = uci.to_bytes(8, 'little', signed=True)
+    res = Res(share=[], zero=[])
+    for i in range(m):
+        prfs = {S: thresha.PRF(hashlib.sha256(f'{keyseed}|{S}'.encode()).digest()[:16], b) for S in itertools.combinations(range(m), m - t) if i in S}
+        a = thresha.np_pseudorandom_share(F, m, i, prfs, u, n)
+        l = thresha.pseudorandom_share(F, m, i, prfs, u, n)
+        res['share'].append((type(a).__name__, tuple(getattr(a, 'shape', ('?',))), [cx_enc(F, of, v) for v in a.value], [cx_enc(F, of, v) for v in l]))
+        if bound is None and 2 * t < m:
+            a = thresha.np_pseudorandom_share_0(F, m, i, prfs, u, n)
+            l = thresha.pseudorandom_share_zero(F, m, i, prfs, u, n)
+            res['zero'].append((type(a).__name__, tuple(getattr(a, 'shape', ('?',))), [cx_enc(F, of, v) for v in a.value.reshape(-1)], [cx_enc(F, of, v) for v in l]))
+    return res
+
+
+def ck_prss(args, res, exc):
+    lit, m, t, n, bound, uci, keyseed = args
+    if exc: return f'unexpected {type(exc).__name__}: {exc}'
+    from contracts import thresha_native as TN
+    of = TN.ofield(lit)
+    for i, (tp, shape, a, l) in enumerate(res['share']):
+        if shape != (n,): return f'np_pseudorandom_share for party {i} returns {tp} of shape {shape}, expected ({n},)'
+        if a != l: return f'party {i}: np_pseudorandom_share gives {a}, pseudorandom_share {l} (same PRF keys, same common input)'
+    differ = None
+    for i, (tp, shape, a, l) in enumerate(res['zero']):
+        if shape != (n,): return f'np_pseudorandom_share_0 for party {i} returns {tp} of shape {shape}, expected ({n},)'
+        if a != l and differ is None: differ = f'party {i}: np_pseudorandom_share_0 gives {a}, pseudorandom_share_zero {l} (same PRF keys, same common input)'
+    if differ:
+        # still a consistent sharing of zero? the m values lie on ONE polynomial of degree <= 2t with value 0 at 0 (own interpolation)
+        xs = [of.from_int(i + 1) for i in range(2 * t + 1)]
+        ok = True
+        for h in range(n):
+            ys = [res['zero'][i][2][h] for i in range(2 * t + 1)]
+            ok = ok and of.interpolate(xs, ys, 0) == 0 and all(of.interpolate(xs, ys, of.from_int(i + 1)) == res['zero'][i][2][h] for i in range(2 * t + 1, m))
+        if ok and t >= 2:
+            return ('class', 'np_pseudorandom_share_0:t>=2:values-differ-from-list-version', differ + '; the array values are a consistent degree-2t sharing of 0 (the PRF outputs are used as '
+                    'coefficients in the opposite order: prl @ [x, x^2, ..] against Horner ((prl0)x + prl1)x ..)')
+        return differ
+    return None
+
+
+def in_prss(tier):
+    from contracts import thresha_native as TN
+    for lit in TN.PRSS_FIELDS:
+        q = TN.lit_q(lit)
+        for m in range(1, 6):
+            if m > q - 1: continue
+            for t in range(m):
+                for n in (0, 1, 3):
+                    for bound in (None, 1 << 3, 1):
+                        if bound is not None and (bound >= q or lit[0] != 'p'): continue
+                        for sd in range(Tq(tier, 2, 8)):
+                            yield (lit, m, t, n, bound, 1 + 7 * sd, sd)
+
+
+# ================================================================================================ m parties (sx/mp.py harness)
+MP_CONFIGS = [(2, 0), (3, 1), (4, 1), (5, 2)]
+
+
+def _mp_modules():
+    if 'mpyc.numpy' not in sys.modules:
+        os.environ.pop('MPYC_NONUMPY', None)
+    from sx import mp
+    mp.modules()
+    from mpyc.numpy import np
+    if np is None: raise RuntimeError('NumPy is disabled in mpyc')
+    return mp, np
+
+
+def _mp_run(m, t, no_prss, cases, seed):
+    """run the cases (world 1 only, operands dealt by the parties in turn) with m parties -> per party list of Res / ('EXC', ..)"""
+    mp, np = _mp_modules()
+    mp.uninstall_symbolic(); mp.clear_caches(); mp.install_seeded(seed)
+    loop, net, rts = mp.make_parties(m, t, no_prss=no_prss, k=30)
+    try:
+        async def prog(rt):
+            out = []
+            for a in cases:
+                cx = Cx(rt, np, a[0], senders=list(range(m)))
+                out.append(await eval_case(cx, a, worlds=(1,)))
+            return out
+        res = mp.run_all(loop, rts, prog)
+        lo = net.leftovers()
+        if lo['unreceived'] or lo['unmatched_receives'] or net.errors:
+            return ('NET', f'network not balanced after the run: {str(lo)[:300]} {net.errors[:2]}')
+        return ('OK', res)
+    except mp.PartyFailure as e:
+        return ('FAIL', str(e)[-1200:])
+    finally:
+        loop.close()
+        sv = mp._state.get('saved_sec')
+        if sv: mp.modules()['thresha'].secrets, mp.modules()['rtmod'].secrets = sv
+
+
+def _passes_one_party(a):
+    """cases of a listed class (failing with one party already) are left out of the m-party batches"""
+    try:
+        r = call_case(*a)
+    except Exception:
+        return False
+    return ck_case(a, r, None) is None
+
+
+_FAMSIZE = {}
+
+
+def _family_size(family):
+    if family not in _FAMSIZE: _FAMSIZE[family] = sum(1 for _ in NATIVE[family].inputs('quick'))
+    return _FAMSIZE[family]
+
+
+# classes of cases that fail with several parties only (delimited; the strict contract is kept): run alone, reported under their class key
+MP_KNOWN = [
+    (lambda a, m, t, no_prss: a[1] == 'lsb' and no_prss, 'np_lsb:no_prss:AttributeError'),
+    (lambda a, m, t, no_prss: a[1] == 'rpow' and a[0][0] == 'i' and m > t + 1, 'public-base-power-of-secure-int-array:non-sender-party:TypeError'),
+]
+
+
+def _mp_known(a, m, t, no_prss):
+    for pred, key in MP_KNOWN:
+        if pred(a, m, t, no_prss): return key
+    return None
+
+
+def call_mp(m, t, no_prss, family, batch, count, seed):
+    """the batch-th batch of `count` cases of the family, spread evenly over its quick domain"""
+    N = _family_size(family)
+    step = max(1, N // (3 * count))
+    cases = [a for a in itertools.islice(NATIVE[family].inputs('quick'), (batch * 7) % step, None, step) if a[1] not in MP_SKIP_OPS]
+    cases = cases[(batch * count) % max(1, len(cases) - count):][:count * 2]
+    _mp_modules()
+    cases = [a for a in cases if _passes_one_party(a)][:count]
+    known = [a for a in cases if _mp_known(a, m, t, no_prss)]
+    cases = [a for a in cases if a not in known]
+    st, res = _mp_run(m, t, no_prss, cases, seed)
+    out = Res(status=st, cases=cases, known=[])
+    if st != 'OK':
+        out['detail'] = res
+        for a in cases:                      # find a case that fails alone
+            s1, r1 = _mp_run(m, t, no_prss, [a], seed)
+            if s1 != 'OK':
+                out['culprit'] = (a, r1[-600:] if isinstance(r1, str) else r1); break
+    else:
+        out['res'] = res
+    for a in known:
+        s1, r1 = _mp_run(m, t, no_prss, [a], seed)
+        if s1 != 'OK': out['known'].append((a, _mp_known(a, m, t, no_prss), r1[-400:]))
+        else:
+            msg = None
+            for pi in range(m):
+                msg = msg or check_res(a, r1[pi][0])
+            if msg: out['known'].append((a, _mp_known(a, m, t, no_prss), msg))
+    return out
+
+
+MP_SKIP_OPS = ('is_zero_public', 'io')
+
+
+def ck_mp(args, res, exc):
+    m, t, no_prss, family, batch, count, seed = args
+    if exc: return f'unexpected {type(exc).__name__}: {exc}'
+    if res['status'] != 'OK':
+        c = res.get('culprit')
+        return f'{m} parties, threshold {t}, no_prss={no_prss}: {res["detail"][:500]}' + (f'; case failing alone: {c[0]!r}: {c[1][-300:]}' if c else '')
+    np = _np()
+    per_party = res['res']
+    if not res['cases'] and not res['known']: return 'empty batch (input generator error)'
+    for ci, a in enumerate(res['cases']):
+        r0 = per_party[0][ci]
+        for pi in range(1, m):
+            if per_party[pi][ci].get('leaves') != r0.get('leaves'):
+                return f'{m} parties, threshold {t}, case {a!r}: party {pi} obtains {str(per_party[pi][ci].get("leaves"))[:300]}, party 0 {str(r0.get("leaves"))[:300]}'
+        msg = check_res(a, r0, np)
+        if msg: return f'{m} parties, threshold {t}, no_prss={no_prss}, case {a!r}: {msg}'
+    if res['known']:
+        a, key, detail = res['known'][0]
+        return ('class', key, f'{m} parties, threshold {t}, no_prss={no_prss}, case {a!r}: {detail}')
+    return None
+
+
+MP_FAMILIES = ['arith_int', 'arith_fxp', 'arith_fld', 'div_fxp', 'div_fld', 'matmul_int', 'matmul_fxp', 'matmul_fld', 'compare_int', 'compare_fxp', 'compare_fld', 'sort_int', 'sort_fxp',
+               'reduce_int', 'reduce_fxp', 'reduce_fld', 'reshape_int', 'reshape_fxp', 'reshape_fld', 'bits_int', 'bits_fxp', 'bits_fld']
+
+
+def in_mp(family):
+    def gen_(tier):
+        k = 0
+        for m, t in MP_CONFIGS:
+            for no_prss in (False, True):
+                for rep in range(Tq(tier, 1, 4)):
+                    k += 1
+                    yield (m, t, no_prss, family, k, Tq(tier, 12, 25) // (3 if family == 'div_fxp' else 1), k)
+    return gen_
+
+
 # ================================================================================================ natives
 def _mk():
     out = []
@@ -856,6 +2417,44 @@ def _mk():
             f'public base ** array, << ; {SH} (quick 6, thorough 60 per form); values -60..60 (fixed point: 1/16 grid |v| <= 4, integral and non-integral operands in rotation)')
         add(f'div_{nm}', 'mpyc.runtime.Runtime.np_divide/np_reciprocal', in_div(kind),
             f'/ with operands array/secret scalar/public in both positions; nonzero divisors (fixed point 1/4 <= |y| <= 4; secure integers: exact quotients); {SH} (quick 4, thorough 50 per form)')
+        add(f'matmul_{nm}', 'mpyc.runtime.Runtime.np_matmul/np_outer/np_convolve/np_vander/np_det', in_matmul(kind),
+            '@ / np.matmul / mpc.np_matmul: 1-D, 2-D and batched 3-D operands with all inner/outer sizes 0..3 and batch broadcasting (quick: 40 shape pairs per form), secret @ secret, '
+            'secret @ public ndarray, public @ secret, A @ A; np.outer (rank <= 2 operands, flattened), np.convolve (lengths 1..3 (5), three modes), np.vander (n 0..3, N None/0..4, both orders); '
+            'determinant of nonsingular 1x1..3x3 matrices (SecInt(32), prime fields)')
+        add(f'compare_{nm}', 'mpyc.runtime.Runtime.np_less/np_equal/np_sgn/np_absolute/np_minimum/np_maximum/np_where/np_if_swap/np_is_zero_public', in_compare(kind),
+            f'< <= == != >= > (fields: == !=) as operator, numpy ufunc and mpc.np_less/np_equal, operands array/secret scalar/public scalar/public ndarray in both positions; {SH} (quick 3, thorough 40 per form); '
+            'values from -3..3 (ties) and up to a quarter of the range; SecInt(64) for the probabilistic zero test; np_sgn (l, LT, EQ), abs, minimum, maximum, where, if_swap, is_zero_public')
+        if kind != 'f':
+            add(f'sort_{nm}', 'mpyc.runtime.Runtime.np_sort/np_amin/np_amax/np_argmin/np_argmax', in_sort(kind),
+                'np.sort / a.sort / mpc.np_sort over every axis (and None), lengths 0..7 (11) and 2-D/3-D shapes, ascending and with key=-x; amin/amax with axis None/int/tuple and keepdims; '
+                'argmin/argmax with axis None/int, keepdims, arg_unary, arg_only in all combinations (first occurrence on ties); values with many ties')
+        add(f'reduce_{nm}', 'mpyc.runtime.Runtime.np_sum/np_prod/np_all/np_any/np_cumsum/np_cumulative_sum/np_trace', in_reduce(kind),
+            'sum (np.sum, a.sum, mpc.np_sum; axis default/None/int/tuple, keepdims, initial public/secret), prod, all, any (axis None/int/tuple), cumsum, cumulative_sum, trace (offsets, axis pairs) '
+            'on shapes of rank <= 3 with axis sizes 0..3 (quick: samples of 10..14 shapes)')
+        add(f'reshape_{nm}', 'mpyc.runtime.Runtime.np_reshape/np_flatten/np_transpose/np_swapaxes/np_squeeze/np_expand_dims/np_concatenate/np_stack/np_hstack/np_vstack/np_dstack/np_column_stack/np_block/np_split/np_append/np_roll/np_flip/np_rot90/np_diag/np_getitem/np_update/np_tolist/np_fromlist/np_copy',
+            in_reshape(kind),
+            'for shapes of rank <= 3 with axis sizes 0..3 (quick: 30 shapes): reshape (all factorisations, -1, order F), flatten, copy, T, transpose (all permutations), swapaxes (all pairs), squeeze, expand_dims, '
+            'flip/fliplr/flipud, roll (public shift, all axes; secret shift for 1-D), rot90 (k = -1..4, axis pairs), diag/diagflat/diagonal, concatenate/stack/hstack/vstack/dstack/column_stack/append/block with '
+            '1-2 further operands (one may be a public ndarray), split/hsplit/vsplit/dsplit (sections and index lists), getitem (ints, negative, slices with steps, tuples, Ellipsis, newaxis, index arrays, masks), '
+            'np_update with scalar/array/broadcast values, len/iter/flat/ndim/size/bool/tolist/fromlist')
+        add(f'io_{nm}', 'mpyc.runtime.Runtime.input/output/_reshare', in_io(kind),
+            'output of an array, input by sender 0 / by all senders / as a one-element list, _reshare; shapes of rank <= 3 with axis sizes 0..3 (quick: 20 per form)')
+        add(f'bits_{nm}', 'mpyc.runtime.Runtime.np_to_bits/np_from_bits/np_trunc/np_lsb/np_unit_vector/np_find', in_bits(kind),
+            'np_to_bits (l None/1/3/all, fixed point also l > bit length; integral and non-integral), np_from_bits, round trip, np_trunc, np_lsb, np_unit_vector (n 1..5 (8), all a), np_find (bits and values, e default/-1) '
+            'on shapes with at most 6 elements')
+    add('random_bits', 'mpyc.runtime.Runtime.np_random_bits', in_random_bits, 'SecInt(16), SecFxp(32,16), GF(11), GF(2^4), GF(3^2), GF(257); n = 0, 1, 2, 7, 33; signed and unsigned; 3 (20) PRSS seeds: '
+        'shape (n,), values in {0,1} (signed: {-1,1}), integral flag', call=call_random_bits, check=ck_random_bits)
+    add('ffarray', 'mpyc.finfields.FiniteFieldArray', in_ff, 'public finite field arrays over GF(11), GF(2^4), GF(3^2), GF(257) (thorough: also GF(8), GF(2), GF(4)): + - * / with array/element/int/ndarray '
+        'operands in both positions and broadcasting, unary -, ** (exponents -2..7), == !=, sum/prod over axes, reshape/transpose/concatenate/stack, getitem, @ with 1-D/2-D/batched shapes; against own field '
+        'arithmetic and against the same operation on field elements', call=call_ff, check=ck_ff)
+    add('np_split_recombine', 'mpyc.thresha.np_random_split/np_recombine', in_split, 'GF(7), GF(11), GF(101), GF(2^31-1), GF(2^3), GF(3^2), GF(2^4); all 0 <= t < m <= min(5, q-1); 0, 1, 2, 4 secrets '
+        '(corner and random values) as field array and as raw ndarray; 2 (8) scripted dealer coefficient sets incl. 0 and q-1: shares equal f_h(i) computed in own arithmetic and equal random_split with the '
+        'same coefficients; np_recombine of EVERY subset of >= t+1 shares at 0 and at [0, m+1], equal to recombine', call=call_split, check=ck_split)
+    add('np_prss', 'mpyc.thresha.np_pseudorandom_share/np_pseudorandom_share_0', in_prss, 'fields of the C15 list; all 0 <= t < m <= min(5, q-1), every party i, n = 0, 1, 3; PRF bound = field order and '
+        '2^3, 1 (prime fields); 1 (4) key sets: equal to pseudorandom_share / pseudorandom_share_zero with the same PRF keys and common input', call=call_prss, check=ck_prss)
+    for fam in MP_FAMILIES:
+        add(f'mp_{fam}', f'mpyc.runtime.Runtime.np_*/m-parties/{fam}', in_mp(fam), f'(m,t) in {MP_CONFIGS}, PRSS on and off, 1 (4) batches of 12 (25) cases of {fam} that pass with one party; operands dealt '
+            'by the parties in turn (runtime.input: np_random_split), real asynchronous mode, results opened by all parties (np_recombine): all parties equal, contract of the family holds', call=call_mp, check=ck_mp)
     return out
 
 
